@@ -7,9 +7,11 @@
   crossing / NaN pattern, any piece counts), every data array, every policy, and EVERY history of
   conversions.  `splitPieces` (antimeridian.fix_polygon) and the map projections are parameters.
 
-  The model is the code after the two proposed repairs (fixes/C15-*.patch); what the code still
-  does wrong is proved wrong here (`asis_*`), with the full statement kept as a `_partial` theorem
-  whose extra hypothesis is exactly the excluded class (known findings).
+  The model takes repair switches (`Polys.Repairs`, one per proposed patch under fixes/ that changes what is
+  modelled).  The property theorems are about the code WITH the patches (hypotheses `R.ignoreProj = true`,
+  `R.sideRestore = true`, `R.copyFrame = true`, all met by `Repairs.all`) and are at full strength: every
+  grid, every policy and projection, every history, every flag.  What the code does without them is proved
+  wrong here (`asis_*`, about `Repairs.asIs`) and stays as regression witness.
 -/
 import UxVerif.Lemmas.Polys
 
@@ -86,13 +88,13 @@ theorem delete_follows (g : G) (p : Nat) {β} (vals : List β) (hv : vals.length
 /-- **exclude_map** (no projection): the polygons are exactly the faces that do not cross, in
     face order, each once; `np.delete` on the data picks, for polygon `k`, the value of the face
     polygon `k` shows. -/
-theorem exclude_map (g : G) {β} (vals : List β) (hv : vals.length = g.n) :
-    gdfRows g .exclude 0 = (List.range g.n).filter (fun i => !g.am 0 i) ∧
-    (gdfRows g .exclude 0).Pairwise (· < ·) ∧
-    (∀ i, i ∈ gdfRows g .exclude 0 ↔ i < g.n ∧ g.am 0 i = false) ∧
+theorem exclude_map (R : Repairs) (g : G) {β} (vals : List β) (hv : vals.length = g.n) :
+    gdfRows R g .exclude 0 = (List.range g.n).filter (fun i => !g.am 0 i) ∧
+    (gdfRows R g .exclude 0).Pairwise (· < ·) ∧
+    (∀ i, i ∈ gdfRows R g .exclude 0 ↔ i < g.n ∧ g.am 0 i = false) ∧
     (gdfData .exclude (amOf g 0) (nnOf g 0) vals).map some
-      = (gdfRows g .exclude 0).map (fun i => vals[i]?) := by
-  have hr : gdfRows g .exclude 0 = keep g 0 := by simp [gdfRows, nnOf, applyNn]
+      = (gdfRows R g .exclude 0).map (fun i => vals[i]?) := by
+  have hr : gdfRows R g .exclude 0 = keep g 0 := by simp [gdfRows, nnOf, applyNn]
   refine ⟨by rw [hr, keep_eq], ?_, ?_, ?_⟩
   · rw [hr, keep_eq]; exact (pairwise_range g.n).filter _
   · intro i; rw [hr]; exact mem_keep g 0 i
@@ -120,18 +122,18 @@ theorem rows_exclude (g : G) (p : Nat) :
     polygons are exactly the faces that neither cross nor project to NaN, in face order, and the
     data value at polygon `k` is the value of the face polygon `k` shows.  Holds for the
     GeoDataFrame, the PolyCollection and the LineCollection (same index tables). -/
-theorem nan_filter_compose (g : G) (p : Nat) {β} (vals : List β) (hv : vals.length = g.n) :
-    gdfRows g .exclude p
+theorem nan_filter_compose (R : Repairs) (g : G) (p : Nat) {β} (vals : List β) (hv : vals.length = g.n) :
+    gdfRows R g .exclude p
       = (List.range g.n).filter (fun i => !g.am p i && !(if p = 0 then false else g.nan p i)) ∧
-    (polyRows g .exclude p).1 = gdfRows g .exclude p ∧
-    (lineRows g .exclude p).1 = gdfRows g .exclude p ∧
+    (polyRows R g .exclude p).1 = gdfRows R g .exclude p ∧
+    (lineRows R g .exclude p).1 = gdfRows R g .exclude p ∧
     (gdfData .exclude (amOf g p) (nnOf g p) vals).map some
-      = (gdfRows g .exclude p).map (fun i => vals[i]?) ∧
-    polyData .exclude (amOf g p) (nnOf g p) (polyRows g .exclude p).2.1 vals
+      = (gdfRows R g .exclude p).map (fun i => vals[i]?) ∧
+    polyData .exclude (amOf g p) (nnOf g p) (polyRows R g .exclude p).2.1 vals
       = gdfData .exclude (amOf g p) (nnOf g p) vals := by
-  have hr : gdfRows g .exclude p = applyNn (nnOf g p) (keep g p) := rfl
+  have hr : gdfRows R g .exclude p = applyNn (nnOf g p) (keep g p) := rfl
   refine ⟨by rw [hr, rows_exclude], rfl, rfl, ?_, ?_⟩
-  · have hin : ∀ i ∈ gdfRows g .exclude p, i < vals.length := by
+  · have hin : ∀ i ∈ gdfRows R g .exclude p, i < vals.length := by
       intro i hi
       rw [hr, rows_exclude] at hi
       rw [hv]; exact List.mem_range.mp (List.mem_filter.mp hi).1
@@ -195,14 +197,14 @@ theorem c2o_prefix (f : Nat → Nat) (m : Nat) :
 /-- **split_map**: every piece maps to a face, pieces come in face order, face `i` owns exactly
     `pieces i` of them (so every face with at least one piece is present), and
     `values[corrected_to_original_faces]` puts on piece `k` the value of the face it was cut from. -/
-theorem split_map (g : G) (p : Nat) {β} (vals : List β) (hv : vals.length = g.n) :
+theorem split_map (R : Repairs) (g : G) (p : Nat) {β} (vals : List β) (hv : vals.length = g.n) :
     (∀ k ∈ c2oSplit g p, k < g.n) ∧
     (c2oSplit g p).Pairwise (· ≤ ·) ∧
     (∀ i, i < g.n → (c2oSplit g p).count i = g.pieces p i) ∧
     (∀ i, i < g.n → 0 < g.pieces p i → i ∈ c2oSplit g p) ∧
     (polyData .split (amOf g p) none (c2oSplit g p) vals).map some
       = (c2oSplit g p).map (fun i => vals[i]?) ∧
-    gdfRows g .split p = List.range g.n := by
+    gdfRows R g .split p = List.range g.n := by
   obtain ⟨h1, h2, h3⟩ := c2o_prefix (g.pieces p) g.n
   refine ⟨h2, h1, ?_, ?_, ?_, rfl⟩
   · intro i hi; have := h3 i; simp only [hi, if_true] at this; exact this
@@ -212,14 +214,30 @@ theorem split_map (g : G) (p : Nat) {β} (vals : List β) (hv : vals.length = g.
 
 /-! ## `ignore` -/
 
+theorem nnFor_zero (R : Repairs) (g : G) (pe : Pe) : nnFor R g pe 0 = none := by
+  unfold nnFor nnOf nnAll; split <;> rfl
+
+theorem nnFor_exclude (R : Repairs) (g : G) (p : Nat) : nnFor R g .exclude p = nnOf g p := by
+  simp [nnFor]
+
+theorem nnFor_ignore (R : Repairs) (hI : R.ignoreProj = true) (g : G) (p : Nat) :
+    nnFor R g .ignore p = nnAll g p := by
+  simp [nnFor, hI]
+
 /-- **ignore_map** (no projection): the identity — polygon `i` is face `i`, value `i`. -/
-theorem ignore_map (g : G) {β} (vals : List β) :
-    gdfRows g .ignore 0 = List.range g.n ∧
-    (polyRows g .ignore 0).1 = List.range g.n ∧
-    (lineRows g .ignore 0).1 = List.range g.n ∧
-    gdfData .ignore (amOf g 0) (nnOf g 0) vals = vals ∧
-    polyData .ignore (amOf g 0) (nnOf g 0) (polyRows g .ignore 0).2.1 vals = vals := by
-  simp [gdfRows, polyRows, lineRows, gdfData, polyData, nnOf, applyNn]
+theorem ignore_map (R : Repairs) (g : G) {β} (vals : List β) :
+    gdfRows R g .ignore 0 = List.range g.n ∧
+    (polyRows R g .ignore 0).1 = List.range g.n ∧
+    (lineRows R g .ignore 0).1 = List.range g.n ∧
+    gdfData .ignore (amOf g 0) (nnFor R g .ignore 0) vals = vals ∧
+    polyData .ignore (amOf g 0) (nnFor R g .ignore 0) (polyRows R g .ignore 0).2.1 vals = vals := by
+  have h0 : nnAll g 0 = none := by simp [nnAll]
+  refine ⟨?_, ?_, ?_, ?_, ?_⟩
+  · simp [gdfRows, nnFor_zero, applyNn]
+  · cases hR : R.ignoreProj <;> simp [polyRows, hR, h0, applyNn]
+  · cases hR : R.ignoreProj <;> simp [lineRows, hR, h0, applyNn]
+  · simp [gdfData, nnFor_zero, applyNn]
+  · simp [polyData, nnFor_zero, applyNn]
 
 theorem keep_all (g : G) (p : Nat) (h : ∀ i, i < g.n → g.am p i = false) :
     keep g p = List.range g.n := by
@@ -228,95 +246,127 @@ theorem keep_all (g : G) (p : Nat) (h : ∀ i, i < g.n → g.am p i = false) :
   intro i hi
   simp [h i (List.mem_range.mp hi)]
 
-/-- **ignore_map with a projection, partial**: as long as NO face crosses, the GeoDataFrame rows
-    are the faces without NaN, in order, with their own data.  (Full statement: the same without
-    the hypothesis `hno` — false for the code as it stands, see `asis_ignore_projection_misaligned`.) -/
-theorem ignore_map_projection_partial (g : G) (p : Nat) {β} (vals : List β)
-    (hv : vals.length = g.n) (hno : ∀ i, i < g.n → g.am p i = false) :
-    gdfRows g .ignore p
+theorem rows_ignore (g : G) (p : Nat) :
+    applyNn (nnAll g p) (List.range g.n)
+      = (List.range g.n).filter (fun i => !(if p = 0 then false else g.nan p i)) := by
+  unfold nnAll
+  by_cases hp : p = 0
+  · have hft : (List.range g.n).filter (fun _ => true) = List.range g.n :=
+      List.filter_eq_self.mpr (by simp)
+    simp [hp, applyNn, hft]
+  · simp only [hp, if_false, applyNn]
+    rw [gather_posWhere]
+
+/-- **ignore_map with a projection** (repaired code): whatever faces cross, the exported polygons are
+    exactly the faces the projection can represent (no NaN), in face order, in the projected coordinates,
+    for all three exporters, and the data value at polygon `k` is the value of the face polygon `k` shows. -/
+theorem ignore_map_projection (R : Repairs) (hI : R.ignoreProj = true) (g : G) (p : Nat) {β}
+    (vals : List β) (hv : vals.length = g.n) :
+    gdfRows R g .ignore p
       = (List.range g.n).filter (fun i => !(if p = 0 then false else g.nan p i)) ∧
-    (gdfData .ignore (amOf g p) (nnOf g p) vals).map some
-      = (gdfRows g .ignore p).map (fun i => vals[i]?) := by
-  have hk := keep_all g p hno
-  have hr : gdfRows g .ignore p = gdfRows g .exclude p := by
-    simp only [gdfRows, hk]
-  have hnf := nan_filter_compose g p vals hv
-  refine ⟨?_, ?_⟩
-  · rw [hr, hnf.1]
-    apply List.filter_congr
-    intro i hi
-    simp [hno i (List.mem_range.mp hi)]
-  · rw [hr, ← hnf.2.2.2.1]
-    congr 1
-    have : amOf g p = [] := by
-      unfold amOf idxWhere
-      apply List.filter_eq_nil_iff.mpr
+    polyRows R g .ignore p = (gdfRows R g .ignore p, [], p) ∧
+    lineRows R g .ignore p = (gdfRows R g .ignore p, p) ∧
+    (gdfData .ignore (amOf g p) (nnFor R g .ignore p) vals).map some
+      = (gdfRows R g .ignore p).map (fun i => vals[i]?) ∧
+    polyData .ignore (amOf g p) (nnFor R g .ignore p) (polyRows R g .ignore p).2.1 vals
+      = gdfData .ignore (amOf g p) (nnFor R g .ignore p) vals := by
+  have hr : gdfRows R g .ignore p = applyNn (nnAll g p) (List.range g.n) := by
+    simp [gdfRows, nnFor_ignore R hI]
+  refine ⟨by rw [hr, rows_ignore], by simp [polyRows, hI, hr], by simp [lineRows, hI, hr], ?_, ?_⟩
+  · have hin : ∀ i ∈ gdfRows R g .ignore p, i < vals.length := by
       intro i hi
-      simp [hno i (List.mem_range.mp hi)]
-    simp [gdfData, this, deleteIdx_nil]
+      rw [hr, rows_ignore] at hi
+      rw [hv]; exact List.mem_range.mp (List.mem_filter.mp hi).1
+    rw [← filterMap_map_some vals _ hin]
+    congr 1
+    simp only [gdfData, nnFor_ignore R hI, hr]
+    have hself : (List.range g.n).filterMap (fun i => vals[i]?) = vals := by
+      rw [← hv]; exact filterMap_getElem?_self vals
+    unfold nnAll
+    by_cases hp : p = 0
+    · simp [hp, applyNn, hself]
+    · simp only [hp, if_false, applyNn]
+      rw [gather_posWhere]
+      have := gather_filterMap_posWhere (fun i => !g.nan p i) (fun i => vals[i]?) (List.range g.n)
+        (fun i hi => ⟨vals[i]'(by rw [hv]; exact List.mem_range.mp hi), by
+          simp [show i < vals.length by rw [hv]; exact List.mem_range.mp hi]⟩)
+      rw [hself] at this
+      simpa using this
+  · simp [polyData, gdfData]
+
 
 /-! ## the export caches: invariant -/
 
 section machine
 variable {β : Type}
 
-/-- the frame cache agrees with the side table the data re-indexing reads back -/
-def GdfInv (g : G) (s : St β) : Prop :=
+/-- a cached frame carries the side tables and the geometry of its own key -/
+def GdfInv (R : Repairs) (g : G) (s : St β) : Prop :=
   ∀ e, s.gdf = some e →
-    s.gdfAm = amOf g e.key.proj ∧ e.nn = nnOf g e.key.proj ∧
-    ∃ fr, s.heap[e.id]? = some fr ∧ fr.rows = gdfRows g e.key.pe e.key.proj ∧ fr.tag = e.key.proj
+    e.am = amOf g e.key.proj ∧ e.nn = nnFor R g e.key.pe e.key.proj ∧
+    ∃ fr, s.heap[e.id]? = some fr ∧ fr.rows = gdfRows R g e.key.pe e.key.proj ∧ fr.tag = e.key.proj
 
-def PolyInv (g : G) (s : St β) : Prop :=
+def PolyInv (R : Repairs) (g : G) (s : St β) : Prop :=
   ∀ e, s.poly = some e →
-    s.polyAm = amOf g e.proj ∧ s.polyNn = nnOf g e.proj ∧
-    (e.rows, e.c2o, e.tag) = polyRows g e.pe e.proj ∧ ¬ (e.pe = .split ∧ e.proj ≠ 0)
+    e.am = amOf g e.proj ∧ e.nn = nnFor R g e.pe e.proj ∧
+    (e.rows, e.c2o, e.tag) = polyRows R g e.pe e.proj ∧ ¬ (e.pe = .split ∧ e.proj ≠ 0)
 
-def LineInv (g : G) (s : St β) : Prop :=
-  ∀ e, s.line = some e → (e.rows, e.tag) = lineRows g e.pe e.proj
+def LineInv (R : Repairs) (g : G) (s : St β) : Prop :=
+  ∀ e, s.line = some e → (e.rows, e.tag) = lineRows R g e.pe e.proj
 
-def Inv (g : G) (s : St β) : Prop := GdfInv g s ∧ PolyInv g s ∧ LineInv g s
+def Inv (R : Repairs) (g : G) (s : St β) : Prop := GdfInv R g s ∧ PolyInv R g s ∧ LineInv R g s
 
-theorem inv_init (g : G) : Inv g (St.init : St β) := by
+theorem inv_init (R : Repairs) (g : G) : Inv R g (St.init : St β) := by
   refine ⟨?_, ?_, ?_⟩ <;> intro e h <;> cases h
 
-/-- what `Grid.to_geodataframe` guarantees when it returns a frame -/
-structure GdfPost (g : G) (s s1 : St β) (k : Key) (c : Bool) (id : Nat) (nn : Option (List Nat)) :
+theorem getElem?_lt {α} {l : List α} {j : Nat} {x : α} (h : l[j]? = some x) : j < l.length := by
+  rcases Nat.lt_or_ge j l.length with hlt | hge
+  · exact hlt
+  · rw [List.getElem?_eq_none hge] at h; cases h
+
+/-- what `Grid.to_geodataframe` guarantees when it returns a frame (repaired: also when the frame comes
+    from the cache, whatever conversions were made in between) -/
+structure GdfPost (R : Repairs) (g : G) (s s1 : St β) (k : Key) (id : Nat) (nn : Option (List Nat)) :
     Prop where
-  nn_eq : nn = nnOf g k.proj
+  nn_eq : nn = nnFor R g k.pe k.proj
   am_eq : s1.gdfAm = amOf g k.proj
-  fr : ∃ fr, s1.heap[id]? = some fr ∧ fr.rows = gdfRows g k.pe k.proj ∧ fr.tag = k.proj
+  fr : ∃ fr, s1.heap[id]? = some fr ∧ fr.rows = gdfRows R g k.pe k.proj ∧ fr.tag = k.proj
   rest : s1.poly = s.poly ∧ s1.polyNn = s.polyNn ∧ s1.polyAm = s.polyAm ∧ s1.line = s.line
-  inv : c = true → GdfInv g s1
+  inv : GdfInv R g s1
   mono : ∀ (j : Nat) (fr : Frame β), s.heap[j]? = some fr → s1.heap[j]? = some fr
 
-theorem gdfCompute_post (g : G) (s : St β) (k : Key) (c : Bool) :
-    GdfPost g s (gdfCompute g s k c).1 k c s.heap.length (nnOf g k.proj) ∧
-    (gdfCompute g s k c).2 = some (s.heap.length, nnOf g k.proj) := by
-  refine ⟨⟨rfl, rfl, ?_, ⟨rfl, rfl, rfl, rfl⟩, ?_, ?_⟩, rfl⟩
-  · exact ⟨{ rows := gdfRows g k.pe k.proj, tag := k.proj, eng := k.eng, cols := [] },
-      by simp [gdfCompute], rfl, rfl⟩
-  · intro hc e he
-    simp only [gdfCompute, hc, if_true, Option.some.injEq] at he
-    subst he
-    exact ⟨rfl, rfl, { rows := gdfRows g k.pe k.proj, tag := k.proj, eng := k.eng, cols := [] },
-      by simp [gdfCompute], rfl, rfl⟩
-  · intro j fr hj
-    have hlt : j < s.heap.length := by
-      rcases Nat.lt_or_ge j s.heap.length with hlt | hge
-      · exact hlt
-      · rw [List.getElem?_eq_none hge] at hj; cases hj
+theorem gdfCompute_post (R : Repairs) (g : G) (s : St β) (hinv : GdfInv R g s) (k : Key) (c : Bool) :
+    GdfPost R g s (gdfCompute R g s k c).1 k s.heap.length (nnFor R g k.pe k.proj) ∧
+    (gdfCompute R g s k c).2 = some (s.heap.length, nnFor R g k.pe k.proj) := by
+  have hmono : ∀ (j : Nat) (fr : Frame β), s.heap[j]? = some fr →
+      (gdfCompute R g s k c).1.heap[j]? = some fr := by
+    intro j fr hj
     simp only [gdfCompute]
-    rw [List.getElem?_append_left hlt]; exact hj
+    rw [List.getElem?_append_left (getElem?_lt hj)]; exact hj
+  refine ⟨⟨rfl, rfl, ?_, ⟨rfl, rfl, rfl, rfl⟩, ?_, hmono⟩, rfl⟩
+  · exact ⟨{ rows := gdfRows R g k.pe k.proj, tag := k.proj, eng := k.eng, cols := [] },
+      by simp [gdfCompute], rfl, rfl⟩
+  · intro e he
+    cases c with
+    | true =>
+      simp only [gdfCompute, if_true, Option.some.injEq] at he
+      subst he
+      exact ⟨rfl, rfl, { rows := gdfRows R g k.pe k.proj, tag := k.proj, eng := k.eng, cols := [] },
+        by simp [gdfCompute], rfl, rfl⟩
+    | false =>
+      simp only [gdfCompute] at he
+      obtain ⟨h1, h2, fr, h3, h4, h5⟩ := hinv e he
+      exact ⟨h1, h2, fr, hmono _ _ h3, h4, h5⟩
 
-theorem gdfCore_some (g : G) (s : St β) (hinv : GdfInv g s) (k : Key) (c o : Bool)
-    (hk : ¬ (k.pe = .split ∧ k.proj ≠ 0)) :
-    ∃ id nn, (gdfCore g s k c o).2 = some (id, nn) ∧
-      GdfPost g s (gdfCore g s k c o).1 k c id nn := by
+theorem gdfCore_some (R : Repairs) (hS : R.sideRestore = true) (g : G) (s : St β)
+    (hinv : GdfInv R g s) (k : Key) (c o : Bool) (hk : ¬ (k.pe = .split ∧ k.proj ≠ 0)) :
+    ∃ id nn, (gdfCore R g s k c o).2 = some (id, nn) ∧
+      GdfPost R g s (gdfCore R g s k c o).1 k id nn := by
   unfold gdfCore
   rw [if_neg hk]
   cases hs : s.gdf with
   | none =>
-    exact ⟨_, _, (gdfCompute_post g s k c).2, (gdfCompute_post g s k c).1⟩
+    exact ⟨_, _, (gdfCompute_post R g s hinv k c).2, (gdfCompute_post R g s hinv k c).1⟩
   | some e =>
     simp only
     by_cases hh : e.key = k ∧ o = false
@@ -324,32 +374,39 @@ theorem gdfCore_some (g : G) (s : St β) (hinv : GdfInv g s) (k : Key) (c o : Bo
       obtain ⟨h1, h2, fr, h3, h4, h5⟩ := hinv e hs
       refine ⟨e.id, e.nn, rfl, ?_⟩
       rw [hh.1] at h1 h2 h4 h5
-      exact ⟨h2, h1, ⟨fr, h3, h4, h5⟩, ⟨rfl, rfl, rfl, rfl⟩, fun _ => hinv, fun _ _ h => h⟩
+      refine ⟨h2, by simp [hS, h1], ⟨fr, h3, h4, h5⟩, ⟨rfl, rfl, rfl, rfl⟩, ?_, fun _ _ h => h⟩
+      intro e' he'
+      exact hinv e' (hs.trans he')
     · rw [if_neg hh]
-      exact ⟨_, _, (gdfCompute_post g s k c).2, (gdfCompute_post g s k c).1⟩
+      exact ⟨_, _, (gdfCompute_post R g s hinv k c).2, (gdfCompute_post R g s hinv k c).1⟩
 
-theorem gdfCore_none (g : G) (s : St β) (k : Key) (c o : Bool)
-    (hk : k.pe = .split ∧ k.proj ≠ 0) : gdfCore g s k c o = (s, none) := by
+theorem gdfCore_none (R : Repairs) (g : G) (s : St β) (k : Key) (c o : Bool)
+    (hk : k.pe = .split ∧ k.proj ≠ 0) : gdfCore R g s k c o = (s, none) := by
   unfold gdfCore; rw [if_pos hk]
 
 /-- what `Grid.to_polycollection` guarantees when it returns -/
-structure PolyPost (g : G) (s s1 : St β) (pe : Pe) (p : Nat) (c : Bool)
+structure PolyPost (R : Repairs) (g : G) (s s1 : St β) (pe : Pe) (p : Nat)
     (r : List Nat × List Nat × Nat) : Prop where
-  r_eq : r = polyRows g pe p
+  r_eq : r = polyRows R g pe p
   am_eq : s1.polyAm = amOf g p
-  nn_eq : s1.polyNn = nnOf g p
+  nn_eq : s1.polyNn = nnFor R g pe p
   rest : s1.heap = s.heap ∧ s1.gdf = s.gdf ∧ s1.gdfAm = s.gdfAm ∧ s1.line = s.line
-  inv : c = true → PolyInv g s1
+  inv : PolyInv R g s1
 
-theorem polyCore_some (g : G) (s : St β) (hinv : PolyInv g s) (pe : Pe) (p : Nat) (c o : Bool)
-    (hk : ¬ (pe = .split ∧ p ≠ 0)) :
-    ∃ r, (polyCore g s pe p c o).2 = some r ∧ PolyPost g s (polyCore g s pe p c o).1 pe p c r := by
-  have hcomp : PolyPost g s (polyCompute g s pe p c).1 pe p c (polyRows g pe p) := by
+theorem polyCore_some (R : Repairs) (hS : R.sideRestore = true) (g : G) (s : St β)
+    (hinv : PolyInv R g s) (pe : Pe) (p : Nat) (c o : Bool) (hk : ¬ (pe = .split ∧ p ≠ 0)) :
+    ∃ r, (polyCore R g s pe p c o).2 = some r ∧ PolyPost R g s (polyCore R g s pe p c o).1 pe p r := by
+  have hcomp : PolyPost R g s (polyCompute R g s pe p c).1 pe p (polyRows R g pe p) := by
     refine ⟨rfl, rfl, rfl, ⟨rfl, rfl, rfl, rfl⟩, ?_⟩
-    intro hc e he
-    simp only [polyCompute, hc, if_true, Option.some.injEq] at he
-    subst he
-    exact ⟨rfl, rfl, rfl, hk⟩
+    intro e he
+    cases c with
+    | true =>
+      simp only [polyCompute, if_true, Option.some.injEq] at he
+      subst he
+      exact ⟨rfl, rfl, rfl, hk⟩
+    | false =>
+      simp only [polyCompute] at he
+      exact hinv e he
   unfold polyCore
   cases hs : s.poly with
   | none =>
@@ -360,13 +417,15 @@ theorem polyCore_some (g : G) (s : St β) (hinv : PolyInv g s) (pe : Pe) (p : Na
     by_cases hh : e.pe = pe ∧ e.proj = p ∧ o = false
     · rw [if_pos hh]
       obtain ⟨h1, h2, h3, _⟩ := hinv e hs
-      rw [hh.1, hh.2.1] at h3; rw [hh.2.1] at h1 h2
-      exact ⟨_, rfl, ⟨h3, h1, h2, ⟨rfl, rfl, rfl, rfl⟩, fun _ => hinv⟩⟩
+      rw [hh.1, hh.2.1] at h3 h2; rw [hh.2.1] at h1
+      refine ⟨_, rfl, ⟨h3, by simp [hS, h1], by simp [hS, h2], ⟨rfl, rfl, rfl, rfl⟩, ?_⟩⟩
+      intro e' he'
+      exact hinv e' (hs.trans he')
     · rw [if_neg hh, if_neg hk]
       exact ⟨_, rfl, hcomp⟩
 
-theorem polyCore_none (g : G) (s : St β) (hinv : PolyInv g s) (pe : Pe) (p : Nat) (c o : Bool)
-    (hk : pe = .split ∧ p ≠ 0) : polyCore g s pe p c o = (s, none) := by
+theorem polyCore_none (R : Repairs) (g : G) (s : St β) (hinv : PolyInv R g s) (pe : Pe) (p : Nat)
+    (c o : Bool) (hk : pe = .split ∧ p ≠ 0) : polyCore R g s pe p c o = (s, none) := by
   unfold polyCore
   cases hs : s.poly with
   | none => simp only [if_pos hk]
@@ -378,16 +437,22 @@ theorem polyCore_none (g : G) (s : St β) (hinv : PolyInv g s) (pe : Pe) (p : Na
       exact h4 ⟨hh.1 ▸ hk.1, hh.2.1 ▸ hk.2⟩
     · rw [if_neg hh, if_pos hk]
 
-theorem lineCore_post (g : G) (s : St β) (hinv : LineInv g s) (pe : Pe) (p : Nat) (c o : Bool) :
-    (lineCore g s pe p c o).2 = lineRows g pe p ∧
-    (lineCore g s pe p c o).1.heap = s.heap ∧ (lineCore g s pe p c o).1.gdf = s.gdf ∧
-    (lineCore g s pe p c o).1.gdfAm = s.gdfAm ∧ (lineCore g s pe p c o).1.poly = s.poly ∧
-    (lineCore g s pe p c o).1.polyNn = s.polyNn ∧ (lineCore g s pe p c o).1.polyAm = s.polyAm ∧
-    (c = true → LineInv g (lineCore g s pe p c o).1) := by
-  have hcomp : (c = true → LineInv g (lineCompute g s pe p c).1) := by
-    intro hc e he
-    simp only [lineCompute, hc, if_true, Option.some.injEq] at he
-    subst he; rfl
+theorem lineCore_post (R : Repairs) (g : G) (s : St β) (hinv : LineInv R g s) (pe : Pe) (p : Nat)
+    (c o : Bool) :
+    (lineCore R g s pe p c o).2 = lineRows R g pe p ∧
+    (lineCore R g s pe p c o).1.heap = s.heap ∧ (lineCore R g s pe p c o).1.gdf = s.gdf ∧
+    (lineCore R g s pe p c o).1.gdfAm = s.gdfAm ∧ (lineCore R g s pe p c o).1.poly = s.poly ∧
+    (lineCore R g s pe p c o).1.polyNn = s.polyNn ∧ (lineCore R g s pe p c o).1.polyAm = s.polyAm ∧
+    LineInv R g (lineCore R g s pe p c o).1 := by
+  have hcomp : LineInv R g (lineCompute R g s pe p c).1 := by
+    intro e he
+    cases c with
+    | true =>
+      simp only [lineCompute, if_true, Option.some.injEq] at he
+      subst he; rfl
+    | false =>
+      simp only [lineCompute] at he
+      exact hinv e he
   unfold lineCore
   cases hs : s.line with
   | none => exact ⟨rfl, rfl, rfl, rfl, rfl, rfl, rfl, hcomp⟩
@@ -397,22 +462,49 @@ theorem lineCore_post (g : G) (s : St β) (hinv : LineInv g s) (pe : Pe) (p : Na
     · rw [if_pos hh]
       have := hinv e hs
       rw [hh.1, hh.2.1] at this
-      exact ⟨this, rfl, rfl, rfl, rfl, rfl, rfl, fun _ => hinv⟩
+      exact ⟨this, rfl, rfl, rfl, rfl, rfl, rfl, hinv⟩
     · rw [if_neg hh]
       exact ⟨rfl, rfl, rfl, rfl, rfl, rfl, rfl, hcomp⟩
 
-/-- one conversion from a consistent state returns what its arguments alone determine -/
-theorem step_view (g : G) (s : St β) (hinv : Inv g s) (op : Op β) :
-    view (step g s op).1 op (step g s op).2 = pureView g op := by
+/-- attaching the data column: the frame handed out has the geometry of the frame it was made from and
+    the column just written; every frame that existed keeps its geometry, and — with the copy — itself -/
+theorem attachCol_spec (R : Repairs) (heap : List (Frame β)) (id v : Nat) (d : List β) (fr : Frame β)
+    (h : heap[id]? = some fr) :
+    (∃ fr', (attachCol R heap id v d).1[(attachCol R heap id v d).2]? = some fr' ∧
+      fr'.rows = fr.rows ∧ fr'.tag = fr.tag ∧ col fr'.cols v = some d) ∧
+    (∀ (j : Nat) (f0 : Frame β), heap[j]? = some f0 →
+      ∃ f1, (attachCol R heap id v d).1[j]? = some f1 ∧ f1.rows = f0.rows ∧ f1.tag = f0.tag ∧
+        f1.eng = f0.eng ∧ (R.copyFrame = true ∨ j ≠ id → f1 = f0)) := by
+  unfold attachCol
+  cases hC : R.copyFrame with
+  | true =>
+    simp only [if_true, h]
+    refine ⟨⟨{ fr with cols := setCol fr.cols v d }, by simp, rfl, rfl, col_setCol _ _ _⟩, ?_⟩
+    intro j f0 hj
+    exact ⟨f0, by rw [List.getElem?_append_left (getElem?_lt hj)]; exact hj, rfl, rfl, rfl, fun _ => rfl⟩
+  | false =>
+    simp only [Bool.false_eq_true, if_false]
+    obtain ⟨fr', hw1, hw2, hw3, _, _, hw6⟩ := writeCol_get heap id v d id fr h
+    refine ⟨⟨fr', hw1, hw2, hw3, by rw [hw6 rfl]; exact col_setCol _ _ _⟩, ?_⟩
+    intro j f0 hj
+    obtain ⟨f1, g1, g2, g3, g4, g5, _⟩ := writeCol_get heap id v d j f0 hj
+    refine ⟨f1, g1, g2, g3, g4, ?_⟩
+    rintro (hc | hne)
+    · cases hc
+    · exact g5 hne
+
+/-- one conversion from ANY consistent state returns what its arguments alone determine -/
+theorem step_view (R : Repairs) (hS : R.sideRestore = true) (g : G) (s : St β) (hinv : Inv R g s)
+    (op : Op β) : view (step R g s op).1 op (step R g s op).2 = pureView R g op := by
   obtain ⟨hg, hp, hl⟩ := hinv
   cases op with
   | gridGdf k c o =>
     by_cases hk : k.pe = .split ∧ k.proj ≠ 0
-    · have e := gdfCore_none g s k c o hk
+    · have e := gdfCore_none R g s k c o hk
       simp only [step, e]
       simp [view, pureView, hk]
-    · obtain ⟨id, nn, h2, post⟩ := gdfCore_some g s hg k c o hk
-      cases hgc : gdfCore g s k c o with
+    · obtain ⟨id, nn, h2, post⟩ := gdfCore_some R hS g s hg k c o hk
+      cases hgc : gdfCore R g s k c o with
       | mk s1 r =>
         rw [hgc] at h2 post; simp only at h2 post; subst h2
         obtain ⟨fr, hf1, hf2, hf3⟩ := post.fr
@@ -421,26 +513,26 @@ theorem step_view (g : G) (s : St β) (hinv : Inv g s) (op : Op β) :
     by_cases hv : vals.length ≠ g.n
     · simp [step, hv, view, pureView]
     · by_cases hk : k.pe = .split ∧ k.proj ≠ 0
-      · have e := gdfCore_none g s k c o hk
+      · have e := gdfCore_none R g s k c o hk
         simp only [step, if_neg hv, e]
         simp [view, pureView, hk, hv]
-      · obtain ⟨id, nn, h2, post⟩ := gdfCore_some g s hg k c o hk
-        cases hgc : gdfCore g s k c o with
+      · obtain ⟨id, nn, h2, post⟩ := gdfCore_some R hS g s hg k c o hk
+        cases hgc : gdfCore R g s k c o with
         | mk s1 r =>
           rw [hgc] at h2 post; simp only at h2 post; subst h2
           obtain ⟨fr, hf1, hf2, hf3⟩ := post.fr
-          obtain ⟨fr', hw1, hw2, hw3, _, _, hw6⟩ :=
-            writeCol_get s1.heap id v (gdfData k.pe s1.gdfAm nn vals) id fr hf1
+          obtain ⟨⟨fr', hw1, hw2, hw3, hw4⟩, _⟩ :=
+            attachCol_spec R s1.heap id v (gdfData k.pe s1.gdfAm nn vals) fr hf1
           simp only [step, if_neg hv, hgc, view, hw1, pureView, hk]
-          rw [hw6 rfl, col_setCol, hw2, hw3, hf2, hf3, post.am_eq, post.nn_eq]
+          rw [hw4, hw2, hw3, hf2, hf3, post.am_eq, post.nn_eq]
           simp
   | gridPoly pe p c o =>
     by_cases hk : pe = .split ∧ p ≠ 0
-    · have e := polyCore_none g s hp pe p c o hk
+    · have e := polyCore_none R g s hp pe p c o hk
       simp only [step, e]
       simp [view, pureView, hk]
-    · obtain ⟨r, h2, post⟩ := polyCore_some g s hp pe p c o hk
-      cases hgc : polyCore g s pe p c o with
+    · obtain ⟨r, h2, post⟩ := polyCore_some R hS g s hp pe p c o hk
+      cases hgc : polyCore R g s pe p c o with
       | mk s1 r' =>
         rw [hgc] at h2 post; simp only at h2 post; subst h2
         obtain ⟨rows, c2o, tag⟩ := r
@@ -450,143 +542,132 @@ theorem step_view (g : G) (s : St β) (hinv : Inv g s) (op : Op β) :
     by_cases hv : vals.length ≠ g.n
     · simp [step, hv, view, pureView]
     · by_cases hk : pe = .split ∧ p ≠ 0
-      · have e := polyCore_none g s hp pe p c o hk
+      · have e := polyCore_none R g s hp pe p c o hk
         simp only [step, if_neg hv, e]
         simp [view, pureView, hk, hv]
-      · obtain ⟨r, h2, post⟩ := polyCore_some g s hp pe p c o hk
-        cases hgc : polyCore g s pe p c o with
+      · obtain ⟨r, h2, post⟩ := polyCore_some R hS g s hp pe p c o hk
+        cases hgc : polyCore R g s pe p c o with
         | mk s1 r' =>
           rw [hgc] at h2 post; simp only at h2 post; subst h2
           obtain ⟨rows, c2o, tag⟩ := r
           have := post.r_eq
           simp [step, hv, hgc, view, pureView, hk, ← this, post.am_eq, post.nn_eq]
   | gridLine pe p c o =>
-    have := (lineCore_post g s hl pe p c o).1
-    cases hgc : lineCore g s pe p c o with
+    have := (lineCore_post R g s hl pe p c o).1
+    cases hgc : lineCore R g s pe p c o with
     | mk s1 r =>
       rw [hgc] at this; simp only at this
       obtain ⟨rows, tag⟩ := r
       simp [step, hgc, view, pureView, ← this]
 
-/-- a CACHING conversion keeps the caches consistent with their side tables -/
-theorem step_inv (g : G) (s : St β) (hinv : Inv g s) (op : Op β) (hc : op.cache = true) :
-    Inv g (step g s op).1 := by
+/-- EVERY conversion — cached or not, overriding or not — keeps the caches consistent -/
+theorem step_inv (R : Repairs) (hS : R.sideRestore = true) (g : G) (s : St β) (hinv : Inv R g s)
+    (op : Op β) : Inv R g (step R g s op).1 := by
   obtain ⟨hg, hp, hl⟩ := hinv
   cases op with
   | gridGdf k c o =>
-    simp only [Op.cache] at hc
     by_cases hk : k.pe = .split ∧ k.proj ≠ 0
-    · simp only [step, gdfCore_none g s k c o hk]; exact ⟨hg, hp, hl⟩
-    · obtain ⟨id, nn, h2, post⟩ := gdfCore_some g s hg k c o hk
-      cases hgc : gdfCore g s k c o with
+    · simp only [step, gdfCore_none R g s k c o hk]; exact ⟨hg, hp, hl⟩
+    · obtain ⟨id, nn, h2, post⟩ := gdfCore_some R hS g s hg k c o hk
+      cases hgc : gdfCore R g s k c o with
       | mk s1 r =>
         rw [hgc] at h2 post; simp only at h2 post; subst h2
         simp only [step, hgc]
         obtain ⟨r1, r2, r3, r4⟩ := post.rest
-        refine ⟨post.inv hc, ?_, ?_⟩
-        · intro e he; rw [r1] at he; rw [r2, r3]; exact hp e he
+        refine ⟨post.inv, ?_, ?_⟩
+        · intro e he; rw [r1] at he; exact hp e he
         · intro e he; rw [r4] at he; exact hl e he
   | daGdf v vals k c o =>
-    simp only [Op.cache] at hc
     by_cases hv : vals.length ≠ g.n
     · simp only [step, if_pos hv]; exact ⟨hg, hp, hl⟩
     · by_cases hk : k.pe = .split ∧ k.proj ≠ 0
-      · simp only [step, if_neg hv, gdfCore_none g s k c o hk]; exact ⟨hg, hp, hl⟩
-      · obtain ⟨id, nn, h2, post⟩ := gdfCore_some g s hg k c o hk
-        cases hgc : gdfCore g s k c o with
+      · simp only [step, if_neg hv, gdfCore_none R g s k c o hk]; exact ⟨hg, hp, hl⟩
+      · obtain ⟨id, nn, h2, post⟩ := gdfCore_some R hS g s hg k c o hk
+        cases hgc : gdfCore R g s k c o with
         | mk s1 r =>
           rw [hgc] at h2 post; simp only at h2 post; subst h2
           simp only [step, if_neg hv, hgc]
           obtain ⟨r1, r2, r3, r4⟩ := post.rest
+          obtain ⟨fr0, hf1, _, _⟩ := post.fr
+          have hat := (attachCol_spec R s1.heap id v (gdfData k.pe s1.gdfAm nn vals) fr0 hf1).2
           refine ⟨?_, ?_, ?_⟩
           · intro e he
-            obtain ⟨h1, h2, fr, h3, h4, h5⟩ := post.inv hc e he
-            obtain ⟨fr', hw1, hw2, hw3, _⟩ :=
-              writeCol_get s1.heap id v (gdfData k.pe s1.gdfAm nn vals) e.id fr h3
-            exact ⟨h1, h2, fr', hw1, by rw [hw2, h4], by rw [hw3, h5]⟩
-          · intro e he; exact (r2 ▸ r3 ▸ hp e (r1 ▸ he))
+            obtain ⟨h1, h2, fr, h3, h4, h5⟩ := post.inv e he
+            obtain ⟨f1, g1, g2, g3, _⟩ := hat e.id fr h3
+            exact ⟨h1, h2, f1, g1, by rw [g2, h4], by rw [g3, h5]⟩
+          · intro e he; exact hp e (r1 ▸ he)
           · intro e he; exact hl e (r4 ▸ he)
   | gridPoly pe p c o =>
-    simp only [Op.cache] at hc
     by_cases hk : pe = .split ∧ p ≠ 0
-    · simp only [step, polyCore_none g s hp pe p c o hk]; exact ⟨hg, hp, hl⟩
-    · obtain ⟨r, h2, post⟩ := polyCore_some g s hp pe p c o hk
-      cases hgc : polyCore g s pe p c o with
+    · simp only [step, polyCore_none R g s hp pe p c o hk]; exact ⟨hg, hp, hl⟩
+    · obtain ⟨r, h2, post⟩ := polyCore_some R hS g s hp pe p c o hk
+      cases hgc : polyCore R g s pe p c o with
       | mk s1 r' =>
         rw [hgc] at h2 post; simp only at h2 post; subst h2
         obtain ⟨rows, c2o, tag⟩ := r
         simp only [step, hgc]
         obtain ⟨r1, r2, r3, r4⟩ := post.rest
-        refine ⟨?_, post.inv hc, ?_⟩
-        · intro e he; rw [r2] at he; rw [r1, r3]; exact hg e he
+        refine ⟨?_, post.inv, ?_⟩
+        · intro e he; rw [r2] at he; rw [r1]; exact hg e he
         · intro e he; rw [r4] at he; exact hl e he
   | daPoly vals pe p c o =>
-    simp only [Op.cache] at hc
     by_cases hv : vals.length ≠ g.n
     · simp only [step, if_pos hv]; exact ⟨hg, hp, hl⟩
     · by_cases hk : pe = .split ∧ p ≠ 0
-      · simp only [step, if_neg hv, polyCore_none g s hp pe p c o hk]; exact ⟨hg, hp, hl⟩
-      · obtain ⟨r, h2, post⟩ := polyCore_some g s hp pe p c o hk
-        cases hgc : polyCore g s pe p c o with
+      · simp only [step, if_neg hv, polyCore_none R g s hp pe p c o hk]; exact ⟨hg, hp, hl⟩
+      · obtain ⟨r, h2, post⟩ := polyCore_some R hS g s hp pe p c o hk
+        cases hgc : polyCore R g s pe p c o with
         | mk s1 r' =>
           rw [hgc] at h2 post; simp only at h2 post; subst h2
           obtain ⟨rows, c2o, tag⟩ := r
           simp only [step, if_neg hv, hgc]
           obtain ⟨r1, r2, r3, r4⟩ := post.rest
-          refine ⟨?_, post.inv hc, ?_⟩
-          · intro e he; rw [r2] at he; rw [r1, r3]; exact hg e he
+          refine ⟨?_, post.inv, ?_⟩
+          · intro e he; rw [r2] at he; rw [r1]; exact hg e he
           · intro e he; rw [r4] at he; exact hl e he
   | gridLine pe p c o =>
-    simp only [Op.cache] at hc
-    obtain ⟨_, r1, r2, r3, r4, r5, r6, r7⟩ := lineCore_post g s hl pe p c o
-    cases hgc : lineCore g s pe p c o with
+    obtain ⟨_, r1, r2, r3, r4, r5, r6, r7⟩ := lineCore_post R g s hl pe p c o
+    cases hgc : lineCore R g s pe p c o with
     | mk s1 r =>
       rw [hgc] at r1 r2 r3 r4 r5 r6 r7; simp only at r1 r2 r3 r4 r5 r6 r7
       obtain ⟨rows, tag⟩ := r
       simp only [step, hgc]
-      refine ⟨?_, ?_, r7 hc⟩
-      · intro e he; rw [r2] at he; rw [r1, r3]; exact hg e he
-      · intro e he; rw [r4] at he; rw [r5, r6]; exact hp e he
+      refine ⟨?_, ?_, r7⟩
+      · intro e he; rw [r2] at he; rw [r1]; exact hg e he
+      · intro e he; rw [r4] at he; exact hp e he
 
-theorem run_inv (g : G) (h : List (Op β)) (s : St β) (hinv : Inv g s)
-    (hc : ∀ op ∈ h, op.cache = true) : Inv g (run g s h).1 := by
+theorem run_inv (R : Repairs) (hS : R.sideRestore = true) (g : G) (h : List (Op β)) (s : St β)
+    (hinv : Inv R g s) : Inv R g (run R g s h).1 := by
   induction h generalizing s with
   | nil => exact hinv
   | cons op ops ih =>
     simp only [run]
-    exact ih _ (step_inv g s hinv op (hc op (by simp))) (fun o ho => hc o (List.mem_cons_of_mem _ ho))
+    exact ih _ (step_inv R hS g s hinv op)
 
-/-- **export_history_free (partial)**: after ANY history of caching conversions on the grid — any
-    mix of GeoDataFrame / PolyCollection / LineCollection exports, of the grid or of any variables,
-    with any `periodic_elements`, projections, engines and `override` flags — a conversion
-    (itself with any flags, `cache=False` included) returns exactly what its own arguments
-    determine: same polygons ↦ faces, same coordinate system, same data on every polygon.
-
-    Full statement (without `hc`): false for the code as it stands — an un-cached conversion in
-    the history rewrites the side tables the next data re-indexing reads; see
-    `asis_uncached_conversion_poisons`. -/
-theorem export_history_free_partial (g : G) (h : List (Op β)) (op : Op β)
-    (hc : ∀ o ∈ h, o.cache = true) :
-    viewAfter g h op = pureView g op ∧ viewAfter g h op = viewAfter g [] op := by
-  have h1 : viewAfter g h op = pureView g op :=
-    step_view g _ (run_inv g h St.init (inv_init g) hc) op
-  have h2 : viewAfter g [] op = pureView g op := step_view g _ (inv_init g) op
+/-- **export_history_free** (full strength, repaired code): after ANY history of conversions on the
+    grid — any mix of GeoDataFrame / PolyCollection / LineCollection exports, of the grid or of any
+    variables, with any `periodic_elements`, projections, engines, `cache` and `override` flags — a
+    conversion returns exactly what its own arguments determine: same polygons ↦ faces, same coordinate
+    system, same data on every polygon; in particular the same as on a new grid.
+    Without the repair this is false: `asis_uncached_conversion_poisons`. -/
+theorem export_history_free (R : Repairs) (hS : R.sideRestore = true) (g : G) (h : List (Op β))
+    (op : Op β) :
+    viewAfter R g h op = pureView R g op ∧ viewAfter R g h op = viewAfter R g [] op := by
+  have h1 : viewAfter R g h op = pureView R g op :=
+    step_view R hS g _ (run_inv R hS g h St.init (inv_init R g)) op
+  have h2 : viewAfter R g [] op = pureView R g op := step_view R hS g _ (inv_init R g) op
   exact ⟨h1, by rw [h1, h2]⟩
 
 /-! ## returned objects -/
 
-theorem getElem?_lt {α} {l : List α} {j : Nat} {x : α} (h : l[j]? = some x) : j < l.length := by
-  rcases Nat.lt_or_ge j l.length with hlt | hge
-  · exact hlt
-  · rw [List.getElem?_eq_none hge] at h; cases h
-
 /-- `Grid.to_geodataframe` never touches a frame that exists already; a frame it CREATES gets the
     next free address -/
-theorem gdfCore_heap (g : G) (s : St β) (k : Key) (c o : Bool) :
-    (∀ (j : Nat) (fr : Frame β), s.heap[j]? = some fr → (gdfCore g s k c o).1.heap[j]? = some fr) ∧
-    (o = true → ∀ id nn, (gdfCore g s k c o).2 = some (id, nn) → id = s.heap.length) := by
+theorem gdfCore_heap (R : Repairs) (g : G) (s : St β) (k : Key) (c o : Bool) :
+    (∀ (j : Nat) (fr : Frame β), s.heap[j]? = some fr →
+      (gdfCore R g s k c o).1.heap[j]? = some fr) ∧
+    (o = true → ∀ id nn, (gdfCore R g s k c o).2 = some (id, nn) → id = s.heap.length) := by
   have hcomp : ∀ (j : Nat) (fr : Frame β), s.heap[j]? = some fr →
-      (gdfCompute g s k c).1.heap[j]? = some fr := by
+      (gdfCompute R g s k c).1.heap[j]? = some fr := by
     intro j fr hj
     simp only [gdfCompute]
     rw [List.getElem?_append_left (getElem?_lt hj)]; exact hj
@@ -608,8 +689,8 @@ theorem gdfCore_heap (g : G) (s : St β) (k : Key) (c o : Bool) :
         intro _ id nn h
         simp only [gdfCompute, Option.some.injEq, Prod.mk.injEq] at h; exact h.1.symm
 
-theorem polyCore_heap (g : G) (s : St β) (pe : Pe) (p : Nat) (c o : Bool) :
-    (polyCore g s pe p c o).1.heap = s.heap := by
+theorem polyCore_heap (R : Repairs) (g : G) (s : St β) (pe : Pe) (p : Nat) (c o : Bool) :
+    (polyCore R g s pe p c o).1.heap = s.heap := by
   unfold polyCore
   cases s.poly with
   | none => by_cases hk : pe = .split ∧ p ≠ 0 <;> simp [hk, polyCompute]
@@ -619,8 +700,8 @@ theorem polyCore_heap (g : G) (s : St β) (pe : Pe) (p : Nat) (c o : Bool) :
     · rw [if_pos hh]
     · rw [if_neg hh]; by_cases hk : pe = .split ∧ p ≠ 0 <;> simp [hk, polyCompute]
 
-theorem lineCore_heap (g : G) (s : St β) (pe : Pe) (p : Nat) (c o : Bool) :
-    (lineCore g s pe p c o).1.heap = s.heap := by
+theorem lineCore_heap (R : Repairs) (g : G) (s : St β) (pe : Pe) (p : Nat) (c o : Bool) :
+    (lineCore R g s pe p c o).1.heap = s.heap := by
   unfold lineCore
   cases s.line with
   | none => simp [lineCompute]
@@ -630,22 +711,36 @@ theorem lineCore_heap (g : G) (s : St β) (pe : Pe) (p : Nat) (c o : Bool) :
     · rw [if_pos hh]
     · rw [if_neg hh]; simp [lineCompute]
 
-/-- a conversion that can write into a frame it did not create: `UxDataArray.to_geodataframe`
-    served from the cache -/
+/-- without the copy: a conversion that can write into a frame it did not create —
+    `UxDataArray.to_geodataframe` served from the cache -/
 def mutates : Op β → Bool
   | .daGdf _ _ _ _ o => !o
   | _ => false
 
-/-- geometry of a handed-out frame is never altered by ANY later conversion (no hypothesis);
-    only its data columns can be -/
-theorem step_geometry (g : G) (s : St β) (op : Op β) (id : Nat) (fr : Frame β)
+theorem attachCol_mono (R : Repairs) (heap : List (Frame β)) (id v : Nat) (d : List β) (j : Nat)
+    (f0 : Frame β) (hj : heap[j]? = some f0) :
+    ∃ f1, (attachCol R heap id v d).1[j]? = some f1 ∧ f1.rows = f0.rows ∧ f1.tag = f0.tag ∧
+      f1.eng = f0.eng ∧ (R.copyFrame = true ∨ j ≠ id → f1 = f0) := by
+  cases hid : heap[id]? with
+  | some fr => exact (attachCol_spec R heap id v d fr hid).2 j f0 hj
+  | none =>
+    have : (attachCol R heap id v d).1 = heap := by
+      unfold attachCol writeCol
+      cases R.copyFrame <;> simp [hid]
+    rw [this]
+    exact ⟨f0, hj, rfl, rfl, rfl, fun _ => rfl⟩
+
+/-- geometry of a handed-out frame is never altered by ANY later conversion, with or without the
+    repairs; with the copy (or when the conversion is not a data conversion served from the cache)
+    nothing of it is -/
+theorem step_geometry (R : Repairs) (g : G) (s : St β) (op : Op β) (id : Nat) (fr : Frame β)
     (h : s.heap[id]? = some fr) :
-    ∃ fr', (step g s op).1.heap[id]? = some fr' ∧ fr'.rows = fr.rows ∧ fr'.tag = fr.tag ∧
-      fr'.eng = fr.eng ∧ (mutates op = false → fr' = fr) := by
+    ∃ fr', (step R g s op).1.heap[id]? = some fr' ∧ fr'.rows = fr.rows ∧ fr'.tag = fr.tag ∧
+      fr'.eng = fr.eng ∧ (R.copyFrame = true ∨ mutates op = false → fr' = fr) := by
   cases op with
   | gridGdf k c o =>
-    have hm := (gdfCore_heap g s k c o).1 id fr h
-    cases hgc : gdfCore g s k c o with
+    have hm := (gdfCore_heap R g s k c o).1 id fr h
+    cases hgc : gdfCore R g s k c o with
     | mk s1 r =>
       rw [hgc] at hm
       cases r with
@@ -654,27 +749,28 @@ theorem step_geometry (g : G) (s : St β) (op : Op β) (id : Nat) (fr : Frame β
   | daGdf v vals k c o =>
     by_cases hv : vals.length ≠ g.n
     · exact ⟨fr, by simpa [step, if_pos hv] using h, rfl, rfl, rfl, fun _ => rfl⟩
-    · have hm := (gdfCore_heap g s k c o).1 id fr h
-      have hid := (gdfCore_heap g s k c o).2
-      cases hgc : gdfCore g s k c o with
+    · have hm := (gdfCore_heap R g s k c o).1 id fr h
+      have hid := (gdfCore_heap R g s k c o).2
+      cases hgc : gdfCore R g s k c o with
       | mk s1 r =>
         rw [hgc] at hm hid
         cases r with
         | none => exact ⟨fr, by simpa [step, if_neg hv, hgc] using hm, rfl, rfl, rfl, fun _ => rfl⟩
         | some q =>
           obtain ⟨rid, nn⟩ := q
-          obtain ⟨fr', hw1, hw2, hw3, hw4, hw5, _⟩ :=
-            writeCol_get s1.heap rid v (gdfData k.pe s1.gdfAm nn vals) id fr hm
-          refine ⟨fr', by simpa [step, if_neg hv, hgc] using hw1, hw2, hw3, hw4, ?_⟩
-          intro hmut
-          have ho : o = true := by simpa [mutates] using hmut
-          have : rid = s.heap.length := hid ho rid nn rfl
-          apply hw5
-          have := getElem?_lt h
-          omega
+          obtain ⟨f1, g1, g2, g3, g4, g5⟩ :=
+            attachCol_mono R s1.heap rid v (gdfData k.pe s1.gdfAm nn vals) id fr hm
+          refine ⟨f1, by simpa [step, if_neg hv, hgc] using g1, g2, g3, g4, ?_⟩
+          rintro (hc | hmut)
+          · exact g5 (Or.inl hc)
+          · have ho : o = true := by simpa [mutates] using hmut
+            have : rid = s.heap.length := hid ho rid nn rfl
+            apply g5; right
+            have := getElem?_lt h
+            omega
   | gridPoly pe p c o =>
-    have hh := polyCore_heap g s pe p c o
-    cases hgc : polyCore g s pe p c o with
+    have hh := polyCore_heap R g s pe p c o
+    cases hgc : polyCore R g s pe p c o with
     | mk s1 r =>
       rw [hgc] at hh; simp only at hh
       cases r with
@@ -683,50 +779,49 @@ theorem step_geometry (g : G) (s : St β) (op : Op β) (id : Nat) (fr : Frame β
   | daPoly vals pe p c o =>
     by_cases hv : vals.length ≠ g.n
     · exact ⟨fr, by simpa [step, if_pos hv] using h, rfl, rfl, rfl, fun _ => rfl⟩
-    · have hh := polyCore_heap g s pe p c o
-      cases hgc : polyCore g s pe p c o with
+    · have hh := polyCore_heap R g s pe p c o
+      cases hgc : polyCore R g s pe p c o with
       | mk s1 r =>
         rw [hgc] at hh; simp only at hh
         cases r with
         | none => exact ⟨fr, by simpa [step, if_neg hv, hgc, hh] using h, rfl, rfl, rfl, fun _ => rfl⟩
         | some q => exact ⟨fr, by simpa [step, if_neg hv, hgc, hh] using h, rfl, rfl, rfl, fun _ => rfl⟩
   | gridLine pe p c o =>
-    have hh := lineCore_heap g s pe p c o
-    cases hgc : lineCore g s pe p c o with
+    have hh := lineCore_heap R g s pe p c o
+    cases hgc : lineCore R g s pe p c o with
     | mk s1 r =>
       rw [hgc] at hh; simp only at hh
       exact ⟨fr, by simpa [step, hgc, hh] using h, rfl, rfl, rfl, fun _ => rfl⟩
 
-/-- **returned_object_stable, geometry (full strength)**: whatever conversions follow — any
+/-- **returned_geometry_stable** (with or without the repairs): whatever conversions follow — any
     history, any flags, any variables — the polygons, coordinate system and engine of a frame that
     was handed out stay what they were. -/
-theorem returned_geometry_stable (g : G) (h2 : List (Op β)) (s : St β) (id : Nat) (fr : Frame β)
-    (h : s.heap[id]? = some fr) :
-    ∃ fr', (run g s h2).1.heap[id]? = some fr' ∧ fr'.rows = fr.rows ∧ fr'.tag = fr.tag ∧
+theorem returned_geometry_stable (R : Repairs) (g : G) (h2 : List (Op β)) (s : St β) (id : Nat)
+    (fr : Frame β) (h : s.heap[id]? = some fr) :
+    ∃ fr', (run R g s h2).1.heap[id]? = some fr' ∧ fr'.rows = fr.rows ∧ fr'.tag = fr.tag ∧
       fr'.eng = fr.eng := by
   induction h2 generalizing s fr with
   | nil => exact ⟨fr, h, rfl, rfl, rfl⟩
   | cons op ops ih =>
-    obtain ⟨fr1, h1, e1, e2, e3, _⟩ := step_geometry g s op id fr h
-    obtain ⟨fr2, h2', f1, f2, f3⟩ := ih (step g s op).1 fr1 h1
+    obtain ⟨fr1, h1, e1, e2, e3, _⟩ := step_geometry R g s op id fr h
+    obtain ⟨fr2, h2', f1, f2, f3⟩ := ih (step R g s op).1 fr1 h1
     exact ⟨fr2, by simpa [run] using h2', f1.trans e1, f2.trans e2, f3.trans e3⟩
 
-/-- **returned_object_stable (partial)**: a frame that was handed out — in any state reached by any
-    history — is not altered AT ALL (columns included) by any later history of conversions, of
-    every kind and with every flag, as long as none of them is a `UxDataArray.to_geodataframe`
-    served from the cache (`override=False`).
-    Full statement (without `hm`): false as the code stands, see `asis_returned_frame_mutated`.
-    PolyCollections are deep copies and LineCollections are never written to: they are values in
-    this model; their stability is tested on the real objects by the harness. -/
-theorem returned_object_stable_partial (g : G) (h2 : List (Op β)) (s : St β)
-    (hm : ∀ op ∈ h2, mutates op = false) (id : Nat) (fr : Frame β) (h : s.heap[id]? = some fr) :
-    (run g s h2).1.heap[id]? = some fr := by
+/-- **returned_object_stable** (full strength, repaired code): a frame that was handed out — in any state
+    reached by any history — is not altered AT ALL (geometry, engine, data columns) by ANY later history of
+    conversions of every kind and with every flag.
+    Without the repair this is false: `asis_returned_frame_mutated`.
+    PolyCollections are deep copies and LineCollections are never written to: they are values in this
+    model; their stability is tested on the real objects by the harness. -/
+theorem returned_object_stable (R : Repairs) (hC : R.copyFrame = true) (g : G) (h2 : List (Op β))
+    (s : St β) (id : Nat) (fr : Frame β) (h : s.heap[id]? = some fr) :
+    (run R g s h2).1.heap[id]? = some fr := by
   induction h2 generalizing s with
   | nil => exact h
   | cons op ops ih =>
-    obtain ⟨fr1, h1, _, _, _, e⟩ := step_geometry g s op id fr h
-    rw [e (hm op (by simp))] at h1
-    simpa [run] using ih (step g s op).1 (fun o ho => hm o (List.mem_cons_of_mem _ ho)) h1
+    obtain ⟨fr1, h1, _, _, _, e⟩ := step_geometry R g s op id fr h
+    rw [e (Or.inl hC)] at h1
+    simpa [run] using ih (step R g s op).1 h1
 
 end machine
 
@@ -771,71 +866,15 @@ theorem exclude_rows_spec (g : G) (p : Nat) :
   rw [flag_map_range _ _ _ hi', flag_map_range _ _ _ hi']
   by_cases hp : p = 0 <;> simp [hp]
 
-/-- **GeoDataFrame of a grid meets the specification** for `exclude` (any projection), `split`,
-    and `ignore` without projection or on grids where no face crosses (partial: the remaining
-    class is `asis_gdf_ignore_projection_misaligned`). -/
-theorem gdf_meets_spec_partial (g : G) {β} [DecidableEq β] (k : Key) (c o : Bool)
-    (hreg : k.pe = .ignore → k.proj ≠ 0 → ∀ i, i < g.n → g.am k.proj i = false) :
-    Spec (caseOf g (.gridGdf k c o : Op β)) (obsOf (pureView g (.gridGdf k c o : Op β))) := by
-  by_cases hk : k.pe = .split ∧ k.proj ≠ 0
-  · left; exact ⟨hk.1, hk.2, by simp [caseOf, Op.kind]⟩
-  · right
-    simp only [pureView, if_neg hk, obsOf, caseOf, Op.kind, Op.pe, Op.proj, Op.vals]
-    have hrows : ∀ i ∈ gdfRows g k.pe k.proj, i < g.n := by
-      intro i hi
-      cases hpe : k.pe with
-      | exclude =>
-        rw [hpe] at hi
-        simp only [gdfRows] at hi
-        rw [rows_exclude] at hi
-        exact List.mem_range.mp (List.mem_filter.mp hi).1
-      | split => rw [hpe] at hi; simpa [gdfRows] using hi
-      | ignore =>
-        rw [hpe] at hi
-        by_cases hp : k.proj = 0
-        · simpa [gdfRows, nnOf, hp, applyNn] using hi
-        · have := keep_all g k.proj (hreg hpe hp)
-          simp only [gdfRows] at hi
-          rw [← this, rows_exclude] at hi
-          exact List.mem_range.mp (List.mem_filter.mp hi).1
-    have hft : (List.range g.n).filter (fun _ => true) = List.range g.n :=
-      List.filter_eq_self.mpr (by simp)
-    refine ⟨by first | rfl | trivial, ⟨in_range_ofNat _ _ hrows, ?_⟩, ?_, ?_, by simp [DataOK]⟩
-    · by_cases hp : k.proj = 0
-      · left; simp [hp]
-      · right; exact ⟨hp, rfl⟩
-    · right
-      apply nodup_map_ofNat
-      cases hpe : k.pe with
-      | exclude => simp only [gdfRows]; rw [rows_exclude]; exact nodup_range_filter _ _
-      | split => simp only [gdfRows]; exact List.nodup_range
-      | ignore =>
-        by_cases hp : k.proj = 0
-        · simp [gdfRows, nnOf, hp, applyNn, List.nodup_range]
-        · have := keep_all g k.proj (hreg hpe hp)
-          simp only [gdfRows]
-          rw [← this, rows_exclude]; exact nodup_range_filter _ _
-    · unfold FaceMapOK
-      cases hpe : k.pe with
-      | exclude =>
-        simp only [gdfRows, nanEff]
-        rw [exclude_rows_spec]
-      | split => simp [gdfRows]
-      | ignore =>
-        simp only [nanEff]
-        by_cases hp : k.proj = 0
-        · simp [gdfRows, nnOf, hp, applyNn, hft]
-        · have hka := keep_all g k.proj (hreg hpe hp)
-          simp only [gdfRows]
-          rw [← hka, exclude_rows_spec, hka]
-          congr 1
-          apply List.filter_congr
-          intro i hi
-          have hi' := List.mem_range.mp hi
-          rw [flag_map_range _ _ _ hi', hreg hpe hp i hi']
-          simp
-
-/-! ### the same for the other exporters, through three row families -/
+theorem ignore_rows_spec (g : G) (p : Nat) :
+    applyNn (nnAll g p) (List.range g.n)
+      = (List.range g.n).filter (fun i =>
+          !(if (Int.ofNat p) = 0 then false else flag ((List.range g.n).map (g.nan p)) i)) := by
+  rw [rows_ignore]
+  apply List.filter_congr
+  intro i hi
+  rw [flag_map_range _ _ _ (List.mem_range.mp hi)]
+  by_cases hp : p = 0 <;> simp [hp]
 
 def mkCase {β} (g : G) (kd : Nat) (pe : Pe) (p : Nat) (vals : List β) : Case β :=
   { kind := kd, pe := pe, proj := p, n := g.n, am := (List.range g.n).map (g.am p),
@@ -844,17 +883,24 @@ def mkCase {β} (g : G) (kd : Nat) (pe : Pe) (p : Nat) (vals : List β) : Case 
 def mkObs {β} (rows : List Nat) (t : Nat) (d : Option (List β)) : Obs β :=
   { err := false, rows := rows.map Int.ofNat, tag := Int.ofNat t, dataOut := d }
 
-theorem tag_ok (p : Nat) : (Int.ofNat p = 0 ∨ (p ≠ 0 ∧ Int.ofNat p = Int.ofNat p)) := by
+/-- the projected coordinate system is the expected one for `exclude` / `ignore` -/
+theorem tag_ok {β} (g : G) (kd p : Nat) (pe : Pe) (hpe : pe ≠ .split) (vals : List β) :
+    Int.ofNat p = expTag (mkCase g kd pe p vals) := by
+  unfold expTag mkCase
   by_cases hp : p = 0
-  · left; simp [hp]
-  · right; exact ⟨hp, rfl⟩
+  · simp [hp]
+  · simp [hp, hpe]
+
+theorem tag_split {β} (g : G) (kd p : Nat) (vals : List β) :
+    Int.ofNat 0 = expTag (mkCase g kd .split p vals) := by
+  simp [expTag, mkCase]
 
 /-- family A: the `exclude` rows, in the requested coordinate system, for any exporter -/
 theorem geom_exclude (g : G) {β} (kd p : Nat) (vals : List β) (d : Option (List β)) :
     VerticesOK (mkCase g kd .exclude p vals) (mkObs (applyNn (nnOf g p) (keep g p)) p d) ∧
     NoRepeat (mkCase g kd .exclude p vals) (mkObs (applyNn (nnOf g p) (keep g p)) p d) ∧
     FaceMapOK (mkCase g kd .exclude p vals) (mkObs (applyNn (nnOf g p) (keep g p)) p d) := by
-  refine ⟨⟨?_, tag_ok p⟩, ?_, ?_⟩
+  refine ⟨⟨?_, tag_ok g kd p .exclude (by decide) vals⟩, ?_, ?_⟩
   · apply in_range_ofNat
     intro i hi
     rw [rows_exclude] at hi
@@ -866,29 +912,41 @@ theorem geom_exclude (g : G) {β} (kd p : Nat) (vals : List β) (d : Option (Lis
     rw [exclude_rows_spec]
     rfl
 
-/-- family B: all faces in lon/lat (`ignore`; `split` for frames) -/
-theorem geom_all (g : G) {β} (kd p : Nat) (pe : Pe) (vals : List β) (d : Option (List β))
-    (hpe : pe = .ignore ∨ (pe = .split ∧ kd = 0)) :
-    VerticesOK (mkCase g kd pe p vals) (mkObs (List.range g.n) 0 d) ∧
-    NoRepeat (mkCase g kd pe p vals) (mkObs (List.range g.n) 0 d) ∧
-    FaceMapOK (mkCase g kd pe p vals) (mkObs (List.range g.n) 0 d) := by
-  have hft : (List.range g.n).filter (fun _ => true) = List.range g.n :=
-    List.filter_eq_self.mpr (by simp)
-  refine ⟨⟨?_, Or.inl rfl⟩, ?_, ?_⟩
+/-- family B: the `ignore` rows (repaired: all faces the projection can represent, projected) -/
+theorem geom_ignore (g : G) {β} (kd p : Nat) (vals : List β) (d : Option (List β)) :
+    VerticesOK (mkCase g kd .ignore p vals) (mkObs (applyNn (nnAll g p) (List.range g.n)) p d) ∧
+    NoRepeat (mkCase g kd .ignore p vals) (mkObs (applyNn (nnAll g p) (List.range g.n)) p d) ∧
+    FaceMapOK (mkCase g kd .ignore p vals) (mkObs (applyNn (nnAll g p) (List.range g.n)) p d) := by
+  refine ⟨⟨?_, tag_ok g kd p .ignore (by decide) vals⟩, ?_, ?_⟩
+  · apply in_range_ofNat
+    intro i hi
+    rw [rows_ignore] at hi
+    exact List.mem_range.mp (List.mem_filter.mp hi).1
+  · right
+    apply nodup_map_ofNat
+    rw [rows_ignore]; exact nodup_range_filter _ _
+  · simp only [FaceMapOK, mkCase, mkObs, nanEff]
+    rw [ignore_rows_spec]
+    rfl
+
+/-- family C: every face once, in lon/lat (`split` for frames: one row per face) -/
+theorem geom_frame_split (g : G) {β} (p : Nat) (vals : List β) (d : Option (List β)) :
+    VerticesOK (mkCase g 0 .split p vals) (mkObs (List.range g.n) 0 d) ∧
+    NoRepeat (mkCase g 0 .split p vals) (mkObs (List.range g.n) 0 d) ∧
+    FaceMapOK (mkCase g 0 .split p vals) (mkObs (List.range g.n) 0 d) := by
+  refine ⟨⟨?_, tag_split g 0 p vals⟩, ?_, ?_⟩
   · exact in_range_ofNat _ _ (fun i hi => List.mem_range.mp hi)
   · right; exact nodup_map_ofNat _ List.nodup_range
-  · rcases hpe with h | ⟨h, hk⟩
-    · subst h; simp [FaceMapOK, mkCase, mkObs, nanEff, hft]
-    · subst h; subst hk; simp [FaceMapOK, mkCase, mkObs]
+  · simp [FaceMapOK, mkCase, mkObs]
 
-/-- family C: the pieces of `split` (collections) -/
+/-- family D: the pieces of `split` (collections) -/
 theorem geom_split (g : G) {β} (kd p q : Nat) (hkd : kd ≠ 0) (vals : List β) (d : Option (List β))
     (hpc : ∀ i, i < g.n → 0 < g.pieces q i) :
     VerticesOK (mkCase g kd .split p vals) (mkObs (c2oSplit g q) 0 d) ∧
     NoRepeat (mkCase g kd .split p vals) (mkObs (c2oSplit g q) 0 d) ∧
     FaceMapOK (mkCase g kd .split p vals) (mkObs (c2oSplit g q) 0 d) := by
   obtain ⟨h1, h2, _⟩ := c2o_prefix (g.pieces q) g.n
-  refine ⟨⟨in_range_ofNat _ _ h2, Or.inl rfl⟩, Or.inl ⟨rfl, hkd⟩, ?_⟩
+  refine ⟨⟨in_range_ofNat _ _ h2, tag_split g kd p vals⟩, Or.inl ⟨rfl, hkd⟩, ?_⟩
   simp only [FaceMapOK, mkCase, mkObs, hkd, ↓reduceIte]
   refine ⟨?_, ?_⟩
   · exact List.Pairwise.map Int.ofNat (fun a b hab => Int.ofNat_le.mpr hab) h1
@@ -907,21 +965,44 @@ theorem map_some_self {β} (vals : List β) (n : Nat) (hv : vals.length = n) :
   rw [gather, filterMap_getElem?_self, hv] at this
   exact this
 
-theorem posWhere_all {γ} (q : γ → Bool) (l : List γ) (h : ∀ x ∈ l, q x = true) :
-    posWhere q l = List.range l.length := by
-  unfold posWhere
-  apply List.filter_eq_self.mpr
-  intro k hk
-  have hk' := List.mem_range.mp hk
-  rw [List.getElem?_eq_getElem hk']
-  exact h _ (List.getElem_mem hk')
+theorem split_proj_zero {pe : Pe} {p : Nat} (hpe : pe = .split) (hk : ¬ (pe = .split ∧ p ≠ 0)) :
+    p = 0 := by
+  rcases Nat.eq_zero_or_pos p with h | h
+  · exact h
+  · exact absurd ⟨hpe, Nat.ne_of_gt h⟩ hk
 
-/-- **`UxDataArray.to_geodataframe` meets the specification** — polygons AND data — under the same
-    hypothesis as `gdf_meets_spec_partial`. -/
-theorem da_gdf_meets_spec_partial (g : G) {β} [DecidableEq β] (v : Nat) (vals : List β) (k : Key)
-    (c o : Bool) (hv : vals.length = g.n)
-    (hreg : k.pe = .ignore → k.proj ≠ 0 → ∀ i, i < g.n → g.am k.proj i = false) :
-    Spec (caseOf g (.daGdf v vals k c o)) (obsOf (pureView g (.daGdf v vals k c o))) := by
+/-- **`Grid.to_geodataframe` meets the specification**: every policy, every projection, every grid. -/
+theorem gdf_meets_spec (R : Repairs) (hI : R.ignoreProj = true) (g : G) {β} [DecidableEq β] (k : Key)
+    (c o : Bool) :
+    Spec (caseOf g (.gridGdf k c o : Op β)) (obsOf (pureView R g (.gridGdf k c o : Op β))) := by
+  by_cases hk : k.pe = .split ∧ k.proj ≠ 0
+  · left; exact ⟨hk.1, hk.2, by simp [caseOf, Op.kind]⟩
+  · right
+    simp only [pureView, if_neg hk]
+    show _ ∧ VerticesOK (mkCase g 0 k.pe k.proj []) (mkObs _ _ _) ∧
+      NoRepeat (mkCase g 0 k.pe k.proj []) (mkObs _ _ _) ∧
+      FaceMapOK (mkCase g 0 k.pe k.proj []) (mkObs _ _ _) ∧
+      DataOK (mkCase g 0 k.pe k.proj []) (mkObs _ _ _)
+    refine ⟨rfl, ?_⟩
+    cases hpe : k.pe with
+    | exclude =>
+      obtain ⟨a, b, c'⟩ := geom_exclude g 0 k.proj ([] : List β) none
+      exact ⟨a, b, c', by simp [DataOK, mkObs]⟩
+    | split =>
+      rw [split_proj_zero hpe hk]
+      obtain ⟨a, b, c'⟩ := geom_frame_split g 0 ([] : List β) none
+      exact ⟨a, b, c', by simp [DataOK, mkObs]⟩
+    | ignore =>
+      obtain ⟨a, b, c'⟩ := geom_ignore g 0 k.proj ([] : List β) none
+      have hr : gdfRows R g .ignore k.proj = applyNn (nnAll g k.proj) (List.range g.n) := by
+        simp [gdfRows, nnFor_ignore R hI]
+      rw [hr]
+      exact ⟨a, b, c', by simp [DataOK, mkObs]⟩
+
+/-- **`UxDataArray.to_geodataframe` meets the specification** — polygons AND data. -/
+theorem da_gdf_meets_spec (R : Repairs) (hI : R.ignoreProj = true) (g : G) {β} [DecidableEq β]
+    (v : Nat) (vals : List β) (k : Key) (c o : Bool) (hv : vals.length = g.n) :
+    Spec (caseOf g (.daGdf v vals k c o)) (obsOf (pureView R g (.daGdf v vals k c o))) := by
   by_cases hk : k.pe = .split ∧ k.proj ≠ 0
   · left; exact ⟨hk.1, hk.2, by simp [caseOf, Op.kind]⟩
   · right
@@ -935,57 +1016,32 @@ theorem da_gdf_meets_spec_partial (g : G) {β} [DecidableEq β] (v : Nat) (vals 
     cases hpe : k.pe with
     | exclude =>
       obtain ⟨a, b, c'⟩ := geom_exclude g 0 k.proj vals
-        (some (gdfData .exclude (amOf g k.proj) (nnOf g k.proj) vals))
-      exact ⟨a, b, c', data_ok g 0 k.proj .exclude vals _ _ _ (nan_filter_compose g k.proj vals hv).2.2.2.1⟩
+        (some (gdfData .exclude (amOf g k.proj) (nnFor R g .exclude k.proj) vals))
+      refine ⟨a, b, c', data_ok g 0 k.proj .exclude vals _ _ _ ?_⟩
+      rw [nnFor_exclude]
+      exact (nan_filter_compose R g k.proj vals hv).2.2.2.1
     | split =>
-      have hp : k.proj = 0 := by
-        rcases Nat.eq_zero_or_pos k.proj with h | h
-        · exact h
-        · exact absurd ⟨hpe, Nat.ne_of_gt h⟩ hk
+      have hp := split_proj_zero hpe hk
       rw [hp]
-      obtain ⟨a, b, c'⟩ := geom_all g 0 0 .split vals
-        (some (gdfData .split (amOf g 0) (nnOf g 0) vals)) (Or.inr ⟨rfl, rfl⟩)
+      obtain ⟨a, b, c'⟩ := geom_frame_split g 0 vals
+        (some (gdfData .split (amOf g 0) (nnFor R g .split 0) vals))
       refine ⟨a, b, c', data_ok g 0 0 .split vals _ _ _ ?_⟩
-      simp only [gdfRows, gdfData, nnOf, applyNn]
+      simp only [gdfRows, gdfData, nnFor_zero, applyNn]
       exact map_some_self vals g.n hv
     | ignore =>
-      by_cases hp : k.proj = 0
-      · rw [hp]
-        obtain ⟨a, b, c'⟩ := geom_all g 0 0 .ignore vals
-          (some (gdfData .ignore (amOf g 0) (nnOf g 0) vals)) (Or.inl rfl)
-        have hr : gdfRows g .ignore 0 = List.range g.n := (ignore_map g vals).1
-        rw [hr]
-        refine ⟨a, b, c', data_ok g 0 0 .ignore vals _ _ _ ?_⟩
-        rw [(ignore_map g vals).2.2.2.1]
-        exact map_some_self vals g.n hv
-      · have hno := hreg hpe hp
-        have hka := keep_all g k.proj hno
-        have hr : gdfRows g .ignore k.proj = applyNn (nnOf g k.proj) (keep g k.proj) := by
-          simp only [gdfRows, hka]
-        obtain ⟨⟨a1, a2⟩, b, c'⟩ := geom_exclude g 0 k.proj vals
-          (some (gdfData .ignore (amOf g k.proj) (nnOf g k.proj) vals))
-        rw [hr]
-        refine ⟨⟨a1, a2⟩, ?_, ?_, ?_⟩
-        · rcases b with b | b
-          · exact absurd b.1 (by simp [mkCase])
-          · exact Or.inr b
-        · simp only [FaceMapOK, mkCase, mkObs, nanEff] at c' ⊢
-          rw [c']
-          congr 1
-          apply List.filter_congr
-          intro i hi
-          have hi' := List.mem_range.mp hi
-          rw [flag_map_range _ _ _ hi', hno i hi']
-          simp
-        · apply data_ok
-          rw [← hr]
-          exact (ignore_map_projection_partial g k.proj vals hv hno).2
+      obtain ⟨a, b, c'⟩ := geom_ignore g 0 k.proj vals
+        (some (gdfData .ignore (amOf g k.proj) (nnFor R g .ignore k.proj) vals))
+      have hr : gdfRows R g .ignore k.proj = applyNn (nnAll g k.proj) (List.range g.n) := by
+        simp [gdfRows, nnFor_ignore R hI]
+      have hd := (ignore_map_projection R hI g k.proj vals hv).2.2.2.1
+      rw [hr] at hd ⊢
+      exact ⟨a, b, c', data_ok g 0 k.proj .ignore vals _ _ _ hd⟩
 
 /-- **`Grid.to_polycollection` meets the specification**, all policies and projections
     (`split` needs every face to have at least one piece). -/
-theorem poly_meets_spec (g : G) {β} [DecidableEq β] (pe : Pe) (p : Nat) (c o : Bool)
-    (hpc : ∀ i, i < g.n → 0 < g.pieces p i) :
-    Spec (caseOf g (.gridPoly pe p c o : Op β)) (obsOf (pureView g (.gridPoly pe p c o : Op β))) := by
+theorem poly_meets_spec (R : Repairs) (hI : R.ignoreProj = true) (g : G) {β} [DecidableEq β] (pe : Pe)
+    (p : Nat) (c o : Bool) (hpc : ∀ i, i < g.n → 0 < g.pieces p i) :
+    Spec (caseOf g (.gridPoly pe p c o : Op β)) (obsOf (pureView R g (.gridPoly pe p c o : Op β))) := by
   by_cases hk : pe = .split ∧ p ≠ 0
   · left; exact ⟨hk.1, hk.2, by simp [caseOf, Op.kind]⟩
   · right
@@ -1003,17 +1059,15 @@ theorem poly_meets_spec (g : G) {β} [DecidableEq β] (pe : Pe) (p : Nat) (c o :
       obtain ⟨a, b, c'⟩ := geom_split g 1 p p (by decide) ([] : List β) none hpc
       exact ⟨a, b, c', by simp [DataOK, mkObs]⟩
     | ignore =>
-      obtain ⟨a, b, c'⟩ := geom_all g 1 p .ignore ([] : List β) none (Or.inl rfl)
+      obtain ⟨a, b, c'⟩ := geom_ignore g 1 p ([] : List β) none
+      simp only [polyRows, hI, if_true]
       exact ⟨a, b, c', by simp [DataOK, mkObs]⟩
 
-/-- **`UxDataArray.to_polycollection` meets the specification** — polygons AND data — for
-    `exclude` (any projection), `split`, and `ignore` without projection or on grids where the
-    projection loses no face and no face crosses (partial: the remaining class is
-    `asis_poly_ignore_projection_data_misaligned`). -/
-theorem da_poly_meets_spec_partial (g : G) {β} [DecidableEq β] (vals : List β) (pe : Pe) (p : Nat)
-    (c o : Bool) (hv : vals.length = g.n) (hpc : ∀ i, i < g.n → 0 < g.pieces p i)
-    (hreg : pe = .ignore → p ≠ 0 → ∀ i, i < g.n → g.am p i = false ∧ g.nan p i = false) :
-    Spec (caseOf g (.daPoly vals pe p c o)) (obsOf (pureView g (.daPoly vals pe p c o))) := by
+/-- **`UxDataArray.to_polycollection` meets the specification** — polygons AND data. -/
+theorem da_poly_meets_spec (R : Repairs) (hI : R.ignoreProj = true) (g : G) {β} [DecidableEq β]
+    (vals : List β) (pe : Pe) (p : Nat) (c o : Bool) (hv : vals.length = g.n)
+    (hpc : ∀ i, i < g.n → 0 < g.pieces p i) :
+    Spec (caseOf g (.daPoly vals pe p c o)) (obsOf (pureView R g (.daPoly vals pe p c o))) := by
   by_cases hk : pe = .split ∧ p ≠ 0
   · left; exact ⟨hk.1, hk.2, by simp [caseOf, Op.kind]⟩
   · right
@@ -1027,45 +1081,35 @@ theorem da_poly_meets_spec_partial (g : G) {β} [DecidableEq β] (vals : List β
     cases pe with
     | exclude =>
       obtain ⟨a, b, c'⟩ := geom_exclude g 1 p vals
-        (some (polyData .exclude (amOf g p) (nnOf g p) (polyRows g .exclude p).2.1 vals))
+        (some (polyData .exclude (amOf g p) (nnFor R g .exclude p) (polyRows R g .exclude p).2.1 vals))
       refine ⟨a, b, c', data_ok g 1 p .exclude vals _ _ _ ?_⟩
-      rw [(nan_filter_compose g p vals hv).2.2.2.2]
-      exact (nan_filter_compose g p vals hv).2.2.2.1
+      rw [nnFor_exclude, (nan_filter_compose R g p vals hv).2.2.2.2]
+      exact (nan_filter_compose R g p vals hv).2.2.2.1
     | split =>
-      have hp : p = 0 := by
-        rcases Nat.eq_zero_or_pos p with h | h
-        · exact h
-        · exact absurd ⟨rfl, Nat.ne_of_gt h⟩ hk
+      have hp : p = 0 := split_proj_zero rfl hk
       subst hp
       obtain ⟨a, b, c'⟩ := geom_split g 1 0 0 (by decide) vals
-        (some (polyData .split (amOf g 0) (nnOf g 0) (polyRows g .split 0).2.1 vals)) hpc
+        (some (polyData .split (amOf g 0) (nnFor R g .split 0) (polyRows R g .split 0).2.1 vals)) hpc
       refine ⟨a, b, c', data_ok g 1 0 .split vals _ _ _ ?_⟩
-      exact (split_map g 0 vals hv).2.2.2.2.1
+      rw [nnFor_zero]
+      exact (split_map R g 0 vals hv).2.2.2.2.1
     | ignore =>
-      obtain ⟨a, b, c'⟩ := geom_all g 1 p .ignore vals
-        (some (polyData .ignore (amOf g p) (nnOf g p) (polyRows g .ignore p).2.1 vals)) (Or.inl rfl)
+      obtain ⟨h1, h2, _, h4, h5⟩ := ignore_map_projection R hI g p vals hv
+      obtain ⟨a, b, c'⟩ := geom_ignore g 1 p vals
+        (some (polyData .ignore (amOf g p) (nnFor R g .ignore p) (polyRows R g .ignore p).2.1 vals))
+      have hr : gdfRows R g .ignore p = applyNn (nnAll g p) (List.range g.n) := by
+        simp [gdfRows, nnFor_ignore R hI]
+      rw [h2, hr]
+      rw [hr] at h4
       refine ⟨a, b, c', data_ok g 1 p .ignore vals _ _ _ ?_⟩
-      have hd : polyData .ignore (amOf g p) (nnOf g p) (polyRows g .ignore p).2.1 vals = vals := by
-        by_cases hp : p = 0
-        · simp [polyData, nnOf, hp, applyNn]
-        · have hno := hreg rfl hp
-          have hka := keep_all g p (fun i hi => (hno i hi).1)
-          have hpw : posWhere (fun i => !g.nan p i) (keep g p) = List.range g.n := by
-            rw [posWhere_all, hka, List.length_range]
-            intro x hx
-            rw [hka] at hx
-            simp [(hno x (List.mem_range.mp hx)).2]
-          simp only [polyData, nnOf, if_neg hp, applyNn, hpw]
-          rw [← hv, gather, filterMap_getElem?_self]
-      show (polyData .ignore (amOf g p) (nnOf g p) (polyRows g .ignore p).2.1 vals).map some
-        = (List.range g.n).map (fun i => vals[i]?)
-      rw [hd]
-      exact map_some_self vals g.n hv
+      have : (polyRows R g .ignore p).2.1 = [] := by rw [h2]
+      rw [h2] at h5
+      rw [h5]; exact h4
 
 /-- **`Grid.to_linecollection` meets the specification**, all policies and projections. -/
-theorem line_meets_spec (g : G) {β} [DecidableEq β] (pe : Pe) (p : Nat) (c o : Bool)
-    (hpc : ∀ i, i < g.n → 0 < g.pieces p i) :
-    Spec (caseOf g (.gridLine pe p c o : Op β)) (obsOf (pureView g (.gridLine pe p c o : Op β))) := by
+theorem line_meets_spec (R : Repairs) (hI : R.ignoreProj = true) (g : G) {β} [DecidableEq β] (pe : Pe)
+    (p : Nat) (c o : Bool) (hpc : ∀ i, i < g.n → 0 < g.pieces p i) :
+    Spec (caseOf g (.gridLine pe p c o : Op β)) (obsOf (pureView R g (.gridLine pe p c o : Op β))) := by
   right
   simp only [pureView]
   show _ ∧ VerticesOK (mkCase g 2 pe p []) (mkObs _ _ _) ∧
@@ -1081,41 +1125,41 @@ theorem line_meets_spec (g : G) {β} [DecidableEq β] (pe : Pe) (p : Nat) (c o :
     obtain ⟨a, b, c'⟩ := geom_split g 2 p p (by decide) ([] : List β) none hpc
     exact ⟨a, b, c', by simp [DataOK, mkObs]⟩
   | ignore =>
-    obtain ⟨a, b, c'⟩ := geom_all g 2 p .ignore ([] : List β) none (Or.inl rfl)
+    obtain ⟨a, b, c'⟩ := geom_ignore g 2 p ([] : List β) none
+    simp only [lineRows, hI, if_true]
     exact ⟨a, b, c', by simp [DataOK, mkObs]⟩
 
-/-! ## every conversion after every caching history meets the specification -/
+/-! ## every conversion after every history meets the specification -/
 
-/-- the inputs on which the code as it stands is right (complement = the known findings) -/
+/-- the conversions the property is about: the data array has one value per face, and
+    `antimeridian.fix_polygon` (parameter) returns at least one polygon per face -/
 def Regular {β} (g : G) : Op β → Prop
-  | .gridGdf k _ _ => k.pe = .ignore → k.proj ≠ 0 → ∀ i, i < g.n → g.am k.proj i = false
-  | .daGdf _ vals k _ _ =>
-      vals.length = g.n ∧ (k.pe = .ignore → k.proj ≠ 0 → ∀ i, i < g.n → g.am k.proj i = false)
+  | .gridGdf _ _ _ => True
+  | .daGdf _ vals _ _ _ => vals.length = g.n
   | .gridPoly _ p _ _ => ∀ i, i < g.n → 0 < g.pieces p i
-  | .daPoly vals pe p _ _ =>
-      vals.length = g.n ∧ (∀ i, i < g.n → 0 < g.pieces p i) ∧
-      (pe = .ignore → p ≠ 0 → ∀ i, i < g.n → g.am p i = false ∧ g.nan p i = false)
+  | .daPoly vals _ p _ _ => vals.length = g.n ∧ ∀ i, i < g.n → 0 < g.pieces p i
   | .gridLine _ p _ _ => ∀ i, i < g.n → 0 < g.pieces p i
 
-theorem pure_meets_spec_partial (g : G) {β} [DecidableEq β] (op : Op β) (hr : Regular g op) :
-    Spec (caseOf g op) (obsOf (pureView g op)) := by
+theorem pure_meets_spec (R : Repairs) (hI : R.ignoreProj = true) (g : G) {β} [DecidableEq β]
+    (op : Op β) (hr : Regular g op) : Spec (caseOf g op) (obsOf (pureView R g op)) := by
   cases op with
-  | gridGdf k c o => exact gdf_meets_spec_partial g k c o hr
-  | daGdf v vals k c o => exact da_gdf_meets_spec_partial g v vals k c o hr.1 hr.2
-  | gridPoly pe p c o => exact poly_meets_spec g pe p c o hr
-  | daPoly vals pe p c o => exact da_poly_meets_spec_partial g vals pe p c o hr.1 hr.2.1 hr.2.2
-  | gridLine pe p c o => exact line_meets_spec g pe p c o hr
+  | gridGdf k c o => exact gdf_meets_spec R hI g k c o
+  | daGdf v vals k c o => exact da_gdf_meets_spec R hI g v vals k c o hr
+  | gridPoly pe p c o => exact poly_meets_spec R hI g pe p c o hr
+  | daPoly vals pe p c o => exact da_poly_meets_spec R hI g vals pe p c o hr.1 hr.2
+  | gridLine pe p c o => exact line_meets_spec R hI g pe p c o hr
 
-/-- **C15, end to end (partial)**: on every grid, after every history of caching conversions, every
-    regular conversion exports polygons that are exactly the faces its policy promises, in order,
-    in the requested coordinate system, each carrying the data value of its own face. -/
-theorem export_meets_spec_after_any_history_partial (g : G) {β} [DecidableEq β]
-    (h : List (Op β)) (op : Op β) (hc : ∀ o ∈ h, o.cache = true) (hr : Regular g op) :
-    Spec (caseOf g op) (obsOf (viewAfter g h op)) := by
-  rw [(export_history_free_partial g h op hc).1]
-  exact pure_meets_spec_partial g op hr
+/-- **C15, end to end (repaired code, full strength)**: on every grid, after every history of
+    conversions (any exporter, policy, projection, engine, variable, `cache` / `override` flag), every
+    conversion exports polygons that are exactly the faces its policy promises, in order, in the requested
+    coordinate system, each carrying the data value of its own face. -/
+theorem export_meets_spec_after_any_history (R : Repairs) (hI : R.ignoreProj = true)
+    (hS : R.sideRestore = true) (g : G) {β} [DecidableEq β] (h : List (Op β)) (op : Op β)
+    (hr : Regular g op) : Spec (caseOf g op) (obsOf (viewAfter R g h op)) := by
+  rw [(export_history_free R hS g h op).1]
+  exact pure_meets_spec R hI g op hr
 
-/-! ## witnesses: non-vacuity, and what the code as it stands gets wrong -/
+/-! ## witnesses: non-vacuity, and what the code without the repairs gets wrong -/
 
 /-- three faces: face 0 crosses the antimeridian (two pieces when split), projection 1 loses
     face 1 (NaN), projection 2 loses nothing -/
@@ -1125,42 +1169,51 @@ def gW : G :=
 
 def valsW : List Nat := [10, 11, 12]
 
+example : Repairs.all.ignoreProj = true ∧ Repairs.all.sideRestore = true ∧
+    Repairs.all.copyFrame = true := by decide
+
 /-- non-vacuity of `nan_filter_compose` / `exclude_map`: with projection 1 only face 2 is left and
     carries value 12; without projection faces 1, 2 with 11, 12 -/
-example : gdfRows gW .exclude 1 = [2] ∧ gdfData .exclude (amOf gW 1) (nnOf gW 1) valsW = [12] ∧
-    gdfRows gW .exclude 0 = [1, 2] ∧ gdfData .exclude (amOf gW 0) (nnOf gW 0) valsW = [11, 12] := by
+example : gdfRows .all gW .exclude 1 = [2] ∧ gdfData .exclude (amOf gW 1) (nnOf gW 1) valsW = [12] ∧
+    gdfRows .all gW .exclude 0 = [1, 2] ∧ gdfData .exclude (amOf gW 0) (nnOf gW 0) valsW = [11, 12] := by
   decide
 /-- non-vacuity of `split_map`: face 0 gives two pieces, both carrying 10 -/
 example : c2oSplit gW 0 = [0, 0, 1, 2] ∧
     polyData .split (amOf gW 0) (nnOf gW 0) (c2oSplit gW 0) valsW = [10, 10, 11, 12] := by decide
-/-- the specification is not trivially true: a frame whose rows are shifted by one is rejected -/
+/-- non-vacuity of `ignore_map_projection`: the crossing face 0 stays, the NaN face 1 goes, values follow,
+    the PolyCollection is projected -/
+example : gdfRows .all gW .ignore 1 = [0, 2] ∧
+    gdfData .ignore (amOf gW 1) (nnFor .all gW .ignore 1) valsW = [10, 12] ∧
+    polyRows .all gW .ignore 1 = ([0, 2], [], 1) := by decide
+/-- the specification is not trivially true: a frame whose rows are shifted by one is rejected, and so is
+    a projected request answered in lon/lat -/
 example : ¬ Spec (caseOf gW (.daGdf 0 valsW ⟨.exclude, 0, 0⟩ true false))
     { err := false, rows := [1, 2], tag := 0, dataOut := some [10, 11] } := by decide
 example : Spec (caseOf gW (.daGdf 0 valsW ⟨.exclude, 0, 0⟩ true false))
     { err := false, rows := [1, 2], tag := 0, dataOut := some [11, 12] } := by decide
+example : ¬ Spec (caseOf gW (.gridPoly .exclude 2 true false : Op Nat))
+    { err := false, rows := [1, 2], tag := 0, dataOut := none } := by decide
 
-/-- a history of caching conversions of every kind, then a data conversion: hypotheses of
-    `export_history_free_partial` and `export_meets_spec_after_any_history_partial` are met and the
-    result is the non-trivial one -/
+/-- a history of conversions of every kind — cached and UN-cached, overriding or not — then a data
+    conversion: the result is the non-trivial one its arguments determine -/
 def histW : List (Op Nat) :=
   [.gridGdf ⟨.exclude, 1, 0⟩ true false, .daGdf 7 valsW ⟨.split, 0, 1⟩ true false,
    .gridLine .exclude 1 true false, .daPoly valsW .exclude 1 true false,
-   .gridPoly .split 0 true true, .gridLine .exclude 0 true false]
+   .gridPoly .split 0 false true, .gridLine .exclude 0 true false, .gridPoly .ignore 2 false false]
 
-example : ∀ o ∈ histW, o.cache = true := by decide
 example : Regular gW (.daPoly valsW .exclude 1 false false) := by
-  refine ⟨by decide, ?_, ?_⟩
-  · intro i hi; simp only [gW]; split <;> decide
-  · intro h; cases h
-example : viewAfter gW histW (.daPoly valsW .exclude 1 false false)
+  refine ⟨by decide, ?_⟩
+  intro i hi; simp only [gW]; split <;> decide
+example : viewAfter .all gW histW (.daPoly valsW .exclude 1 false false)
     = { err := false, rows := [2], tag := 1, data := some [12] } := by decide
 
-/-- **as-is (known finding)**: an UN-cached conversion rewrites the side tables
+/-- **as-is** (fixes/C15-export-side-tables.patch not applied): an UN-cached conversion rewrites the side tables
     (`non_nan_polygon_indices`, `antimeridian_face_indices`) while the cached collection stays, so
     the next data conversion served from the cache re-indexes its data with the wrong tables:
-    2 values on 1 polygon. `export_history_free` without `hc` is false. -/
+    2 values on 1 polygon.  `export_history_free` is false for the unrepaired code. -/
 theorem asis_uncached_conversion_poisons :
-    ¬ (∀ (g : G) (h : List (Op Nat)) (op : Op Nat), viewAfter g h op = viewAfter g [] op) := by
+    ¬ (∀ (g : G) (h : List (Op Nat)) (op : Op Nat),
+        viewAfter .asIs g h op = viewAfter .asIs g [] op) := by
   intro hall
   have := hall gW [.daPoly valsW .exclude 1 true false, .gridPoly .split 0 false false]
     (.daPoly valsW .exclude 1 true false)
@@ -1168,34 +1221,45 @@ theorem asis_uncached_conversion_poisons :
 
 theorem asis_uncached_conversion_breaks_spec :
     ¬ Spec (caseOf gW (.daPoly valsW .exclude 1 true false))
-      (obsOf (viewAfter gW [.daPoly valsW .exclude 1 true false, .gridPoly .split 0 false false]
+      (obsOf (viewAfter .asIs gW [.daPoly valsW .exclude 1 true false, .gridPoly .split 0 false false]
         (.daPoly valsW .exclude 1 true false))) := by decide
 
-/-- **as-is (known finding)**: `UxDataArray.to_geodataframe` writes its column into the frame
-    `Grid.to_geodataframe` handed out earlier. `returned_object_stable` without `hm` is false. -/
+/-- the same history with the repair: the specification holds (instance of
+    `export_meets_spec_after_any_history`) -/
+example : Spec (caseOf gW (.daPoly valsW .exclude 1 true false))
+    (obsOf (viewAfter .all gW [.daPoly valsW .exclude 1 true false, .gridPoly .split 0 false false]
+      (.daPoly valsW .exclude 1 true false))) := by decide
+
+/-- **as-is** (fixes/C15-dataarray-gdf-copy.patch not applied): `UxDataArray.to_geodataframe` writes its column
+    into the frame `Grid.to_geodataframe` handed out earlier.  `returned_object_stable` is false for the
+    unrepaired code. -/
 theorem asis_returned_frame_mutated :
     ¬ (∀ (g : G) (s : St Nat) (h2 : List (Op Nat)) (id : Nat) (fr : Frame Nat),
-        s.heap[id]? = some fr → (run g s h2).1.heap[id]? = some fr) := by
+        s.heap[id]? = some fr → (run .asIs g s h2).1.heap[id]? = some fr) := by
   intro hall
-  have := hall gW (run gW St.init [.gridGdf ⟨.exclude, 0, 0⟩ true false]).1
+  have := hall gW (run .asIs gW St.init [.gridGdf ⟨.exclude, 0, 0⟩ true false]).1
     [.daGdf 0 valsW ⟨.exclude, 0, 0⟩ true false] 0
     { rows := [1, 2], tag := 0, eng := 0, cols := [] } (by decide)
   revert this; decide
 
-/-- **as-is (known finding)**: `ignore` + projection on a grid with a crossing face — the non-NaN
-    positions were computed after deleting the crossing faces but index the full array: the NaN
-    face 1 is exported, faces 0 and 2 are lost. -/
+/-- **as-is** (fixes/C15-ignore-honours-projection.patch not applied): `ignore` + projection on a grid with a
+    crossing face — the non-NaN positions were computed after deleting the crossing faces but index the
+    full array: the NaN face 1 is exported, faces 0 and 2 are lost. -/
 theorem asis_gdf_ignore_projection_misaligned :
     ¬ Spec (caseOf gW (.gridGdf ⟨.ignore, 1, 0⟩ true false : Op Nat))
-      (obsOf (pureView gW (.gridGdf ⟨.ignore, 1, 0⟩ true false : Op Nat))) := by decide
+      (obsOf (pureView .asIs gW (.gridGdf ⟨.ignore, 1, 0⟩ true false : Op Nat))) := by decide
 
-/-- **as-is (known finding)**: PolyCollection `ignore` + projection — all faces are exported (in
-    lon/lat) but the data are filtered with the non-NaN table: 1 value for 3 polygons. -/
+/-- **as-is** (same patch): PolyCollection `ignore` + projection — all faces are exported in lon/lat although a
+    projection was requested, and the data are filtered with the non-NaN table: 1 value for 3 polygons. -/
 theorem asis_poly_ignore_projection_data_misaligned :
     ¬ Spec (caseOf gW (.daPoly valsW .ignore 1 true false))
-      (obsOf (pureView gW (.daPoly valsW .ignore 1 true false))) := by decide
+      (obsOf (pureView .asIs gW (.daPoly valsW .ignore 1 true false))) := by decide
 
-/-- **regression witness for `fixes/C15-gdf-nan-mask-axis.patch`**: with the NaN mask reduced over
+theorem asis_line_ignore_projection_not_projected :
+    ¬ Spec (caseOf gW (.gridLine .ignore 2 true false : Op Nat))
+      (obsOf (pureView .asIs gW (.gridLine .ignore 2 true false : Op Nat))) := by decide
+
+/-- **regression witness for the committed NaN-mask repair**: with the NaN mask reduced over
     one axis only, `np.where(mask)[0]` lists every good position once per coordinate column; the
     frame then shows every face twice. -/
 def nnOneAxis (g : G) (p : Nat) : List Nat :=
@@ -1206,17 +1270,17 @@ theorem asis_nan_mask_one_axis_duplicates :
       { err := false, rows := (gather (keep gW 2) (nnOneAxis gW 2)).map Int.ofNat, tag := 2,
         dataOut := none } := by decide
 
-/-- **regression witness for `fixes/C15-linecollection-cache-projection.patch`**: a line cache
+/-- **regression witness for the committed line-cache repair**: a line cache
     whose key omits the projection serves the projected collection to the next unprojected request. -/
 def lineCoreNoProj (g : G) (s : St Nat) (pe : Pe) (p : Nat) (o : Bool) : St Nat × List Nat × Nat :=
   match s.line with
-  | some e => if e.pe = pe ∧ o = false then (s, e.rows, e.tag) else lineCompute g s pe 0 true
+  | some e => if e.pe = pe ∧ o = false then (s, e.rows, e.tag) else lineCompute .all g s pe 0 true
   | none =>
-    let r := lineRows g pe p
+    let r := lineRows .all g pe p
     ({ s with line := some ⟨pe, 0, r.1, r.2⟩ }, r)
 
 theorem asis_line_cache_without_projection_is_stale :
     (lineCoreNoProj gW (lineCoreNoProj gW St.init .exclude 1 false).1 .exclude 0 false).2
-      ≠ lineRows gW .exclude 0 := by decide
+      ≠ lineRows .all gW .exclude 0 := by decide
 
 end UxVerif.C15
